@@ -15,6 +15,16 @@ let option_map f = function
 | Some a -> Some (f a)
 | None -> None
 
+(** val fst : ('a1 * 'a2) -> 'a1 **)
+
+let fst = function
+| (x, _) -> x
+
+(** val snd : ('a1 * 'a2) -> 'a2 **)
+
+let snd = function
+| (_, y) -> y
+
 (** val length : 'a1 list -> nat **)
 
 let rec length = function
@@ -48,15 +58,6 @@ module Coq__1 = struct
    | S p -> S (add p m)
 end
 include Coq__1
-
-(** val sub : nat -> nat -> nat **)
-
-let rec sub n0 m =
-  match n0 with
-  | O -> n0
-  | S k -> (match m with
-            | O -> n0
-            | S l -> sub k l)
 
 type positive =
 | XI of positive
@@ -148,20 +149,6 @@ module Pos =
   | XI n' -> f (iter f (iter f x n') n')
   | XO n' -> iter f (iter f x n') n'
   | XH -> f x
-
-  (** val div2 : positive -> positive **)
-
-  let div2 = function
-  | XI p0 -> p0
-  | XO p0 -> p0
-  | XH -> XH
-
-  (** val div2_up : positive -> positive **)
-
-  let div2_up = function
-  | XI p0 -> succ p0
-  | XO p0 -> p0
-  | XH -> XH
 
   (** val compare_cont : comparison -> positive -> positive -> comparison **)
 
@@ -266,26 +253,6 @@ module Pos =
              | XO _ -> Npos XH
              | _ -> N0)
 
-  (** val coq_lxor : positive -> positive -> n **)
-
-  let rec coq_lxor p q =
-    match p with
-    | XI p0 ->
-      (match q with
-       | XI q0 -> coq_Ndouble (coq_lxor p0 q0)
-       | XO q0 -> coq_Nsucc_double (coq_lxor p0 q0)
-       | XH -> Npos (XO p0))
-    | XO p0 ->
-      (match q with
-       | XI q0 -> coq_Nsucc_double (coq_lxor p0 q0)
-       | XO q0 -> coq_Ndouble (coq_lxor p0 q0)
-       | XH -> Npos (XI p0))
-    | XH ->
-      (match q with
-       | XI q0 -> Npos (XO q0)
-       | XO q0 -> Npos (XI q0)
-       | XH -> N0)
-
   (** val iter_op : ('a1 -> 'a1 -> 'a1) -> positive -> 'a1 -> 'a1 **)
 
   let rec iter_op op p a =
@@ -323,6 +290,15 @@ module N =
                  | N0 -> n0
                  | Npos q -> Npos (Pos.coq_lor p q))
 
+  (** val coq_land : n -> n -> n **)
+
+  let coq_land n0 m =
+    match n0 with
+    | N0 -> N0
+    | Npos p -> (match m with
+                 | N0 -> N0
+                 | Npos q -> Pos.coq_land p q)
+
   (** val ldiff : n -> n -> n **)
 
   let ldiff n0 m =
@@ -331,15 +307,6 @@ module N =
     | Npos p -> (match m with
                  | N0 -> n0
                  | Npos q -> Pos.ldiff p q)
-
-  (** val coq_lxor : n -> n -> n **)
-
-  let coq_lxor n0 m =
-    match n0 with
-    | N0 -> m
-    | Npos p -> (match m with
-                 | N0 -> n0
-                 | Npos q -> Pos.coq_lxor p q)
  end
 
 module Z =
@@ -407,11 +374,6 @@ module Z =
   | Z0 -> Z0
   | Zpos x0 -> Zneg x0
   | Zneg x0 -> Zpos x0
-
-  (** val pred : z -> z **)
-
-  let pred x =
-    add x (Zneg XH)
 
   (** val sub : z -> z -> z **)
 
@@ -574,26 +536,22 @@ module Z =
   let modulo a b =
     let (_, r) = div_eucl a b in r
 
-  (** val div2 : z -> z **)
+  (** val coq_lor : z -> z -> z **)
 
-  let div2 = function
-  | Z0 -> Z0
-  | Zpos p -> (match p with
-               | XH -> Z0
-               | _ -> Zpos (Pos.div2 p))
-  | Zneg p -> Zneg (Pos.div2_up p)
-
-  (** val shiftl : z -> z -> z **)
-
-  let shiftl a = function
-  | Z0 -> a
-  | Zpos p -> Pos.iter (mul (Zpos (XO XH))) a p
-  | Zneg p -> Pos.iter div2 a p
-
-  (** val shiftr : z -> z -> z **)
-
-  let shiftr a n0 =
-    shiftl a (opp n0)
+  let coq_lor a b =
+    match a with
+    | Z0 -> b
+    | Zpos a0 ->
+      (match b with
+       | Z0 -> a
+       | Zpos b0 -> Zpos (Pos.coq_lor a0 b0)
+       | Zneg b0 -> Zneg (N.succ_pos (N.ldiff (Pos.pred_N b0) (Npos a0))))
+    | Zneg a0 ->
+      (match b with
+       | Z0 -> a
+       | Zpos b0 -> Zneg (N.succ_pos (N.ldiff (Pos.pred_N a0) (Npos b0)))
+       | Zneg b0 ->
+         Zneg (N.succ_pos (N.coq_land (Pos.pred_N a0) (Pos.pred_N b0))))
 
   (** val coq_land : z -> z -> z **)
 
@@ -611,27 +569,6 @@ module Z =
        | Zpos b0 -> of_N (N.ldiff (Npos b0) (Pos.pred_N a0))
        | Zneg b0 ->
          Zneg (N.succ_pos (N.coq_lor (Pos.pred_N a0) (Pos.pred_N b0))))
-
-  (** val coq_lxor : z -> z -> z **)
-
-  let coq_lxor a b =
-    match a with
-    | Z0 -> b
-    | Zpos a0 ->
-      (match b with
-       | Z0 -> a
-       | Zpos b0 -> of_N (Pos.coq_lxor a0 b0)
-       | Zneg b0 -> Zneg (N.succ_pos (N.coq_lxor (Npos a0) (Pos.pred_N b0))))
-    | Zneg a0 ->
-      (match b with
-       | Z0 -> a
-       | Zpos b0 -> Zneg (N.succ_pos (N.coq_lxor (Pos.pred_N a0) (Npos b0)))
-       | Zneg b0 -> of_N (N.coq_lxor (Pos.pred_N a0) (Pos.pred_N b0)))
-
-  (** val lnot : z -> z **)
-
-  let lnot a =
-    pred (opp a)
  end
 
 (** val nth : nat -> 'a1 list -> 'a1 -> 'a1 **)
@@ -645,11 +582,36 @@ let rec nth n0 l default =
             | [] -> default
             | _ :: t -> nth m t default)
 
-(** val flat_map : ('a1 -> 'a2 list) -> 'a1 list -> 'a2 list **)
+(** val nth_error : 'a1 list -> nat -> 'a1 option **)
 
-let rec flat_map f = function
+let rec nth_error l = function
+| O -> (match l with
+        | [] -> None
+        | x :: _ -> Some x)
+| S n1 -> (match l with
+           | [] -> None
+           | _ :: l0 -> nth_error l0 n1)
+
+(** val last : 'a1 list -> 'a1 -> 'a1 **)
+
+let rec last l d =
+  match l with
+  | [] -> d
+  | a :: l0 -> (match l0 with
+                | [] -> a
+                | _ :: _ -> last l0 d)
+
+(** val rev : 'a1 list -> 'a1 list **)
+
+let rec rev = function
 | [] -> []
-| x :: t -> app (f x) (flat_map f t)
+| x :: l' -> app (rev l') (x :: [])
+
+(** val map : ('a1 -> 'a2) -> 'a1 list -> 'a2 list **)
+
+let rec map f = function
+| [] -> []
+| a :: t -> (f a) :: (map f t)
 
 (** val fold_left : ('a1 -> 'a2 -> 'a1) -> 'a2 list -> 'a1 -> 'a1 **)
 
@@ -658,11 +620,23 @@ let rec fold_left f l a0 =
   | [] -> a0
   | b :: t -> fold_left f t (f a0 b)
 
+(** val existsb : ('a1 -> bool) -> 'a1 list -> bool **)
+
+let rec existsb f = function
+| [] -> false
+| a :: l0 -> (||) (f a) (existsb f l0)
+
 (** val forallb : ('a1 -> bool) -> 'a1 list -> bool **)
 
 let rec forallb f = function
 | [] -> true
 | a :: l0 -> (&&) (f a) (forallb f l0)
+
+(** val filter : ('a1 -> bool) -> 'a1 list -> 'a1 list **)
+
+let rec filter f = function
+| [] -> []
+| x :: l0 -> if f x then x :: (filter f l0) else filter f l0
 
 (** val firstn : nat -> 'a1 list -> 'a1 list **)
 
@@ -682,1717 +656,1627 @@ let rec skipn n0 l =
              | [] -> []
              | _ :: l0 -> skipn n1 l0)
 
-(** val repeat : 'a1 -> nat -> 'a1 list **)
+type jval =
+| JNull
+| JBool of bool
+| JI64 of z
+| JF64 of z
+| JStr of z list
+| JArr of jval list
+| JObj of (z list * jval) list
 
-let rec repeat x = function
-| O -> []
-| S k -> x :: (repeat x k)
+(** val bytes_eqb : z list -> z list -> bool **)
 
-(** val uw : z -> z -> z **)
+let rec bytes_eqb a b =
+  match a with
+  | [] -> (match b with
+           | [] -> true
+           | _ :: _ -> false)
+  | x :: a' ->
+    (match b with
+     | [] -> false
+     | y :: b' -> (&&) (Z.eqb x y) (bytes_eqb a' b'))
 
-let uw bits x =
-  Z.modulo x (Z.pow (Zpos (XO XH)) bits)
+(** val jbinn_BINN_LIST : z **)
 
-(** val sw : z -> z -> z **)
+let jbinn_BINN_LIST =
+  Zpos (XO (XO (XO (XO (XO (XI (XI XH)))))))
 
-let sw bits x =
-  Z.sub
-    (Z.modulo (Z.add x (Z.pow (Zpos (XO XH)) (Z.sub bits (Zpos XH))))
-      (Z.pow (Zpos (XO XH)) bits))
-    (Z.pow (Zpos (XO XH)) (Z.sub bits (Zpos XH)))
+(** val jbinn_BINN_MAP : z **)
 
-(** val wOP_SET : z **)
+let jbinn_BINN_MAP =
+  Zpos (XI (XO (XO (XO (XO (XI (XI XH)))))))
 
-let wOP_SET =
+(** val jbinn_BINN_OBJECT : z **)
+
+let jbinn_BINN_OBJECT =
+  Zpos (XO (XI (XO (XO (XO (XI (XI XH)))))))
+
+(** val jbinn_BINN_NULL : z **)
+
+let jbinn_BINN_NULL =
+  Z0
+
+(** val jbinn_BINN_TRUE : z **)
+
+let jbinn_BINN_TRUE =
   Zpos XH
 
-(** val wOP_COPY : z **)
+(** val jbinn_BINN_FALSE : z **)
 
-let wOP_COPY =
+let jbinn_BINN_FALSE =
   Zpos (XO XH)
 
-(** val wOP_WRITE : z **)
+(** val jbinn_BINN_BOOL : z **)
 
-let wOP_WRITE =
-  Zpos (XI XH)
+let jbinn_BINN_BOOL =
+  Zpos (XI (XO (XO (XO (XO (XI (XI (XO (XO (XO (XO (XO (XO (XO (XO (XO (XO
+    (XO (XO XH)))))))))))))))))))
 
-(** val wOP_RESIZE : z **)
+(** val jbinn_BINN_UINT8 : z **)
 
-let wOP_RESIZE =
-  Zpos (XO (XO XH))
+let jbinn_BINN_UINT8 =
+  Zpos (XO (XO (XO (XO (XO XH)))))
 
-(** val wOP_SAVEPOINT : z **)
+(** val jbinn_BINN_INT8 : z **)
 
-let wOP_SAVEPOINT =
-  Zpos (XI (XO XH))
+let jbinn_BINN_INT8 =
+  Zpos (XI (XO (XO (XO (XO XH)))))
 
-(** val wOP_RESET : z **)
+(** val jbinn_BINN_UINT16 : z **)
 
-let wOP_RESET =
-  Zpos (XO (XI XH))
+let jbinn_BINN_UINT16 =
+  Zpos (XO (XO (XO (XO (XO (XO XH))))))
 
-(** val wOP_SEP : z **)
+(** val jbinn_BINN_INT16 : z **)
 
-let wOP_SEP =
-  Zpos (XI (XI (XI (XI (XI (XI XH))))))
+let jbinn_BINN_INT16 =
+  Zpos (XI (XO (XO (XO (XO (XO XH))))))
 
-(** val sizeof_WBSEP : z **)
+(** val jbinn_BINN_UINT32 : z **)
 
-let sizeof_WBSEP =
-  Zpos (XO (XO (XI XH)))
+let jbinn_BINN_UINT32 =
+  Zpos (XO (XO (XO (XO (XO (XI XH))))))
 
-(** val sizeof_WBRESET : z **)
+(** val jbinn_BINN_INT32 : z **)
 
-let sizeof_WBRESET =
-  Zpos (XO (XO XH))
+let jbinn_BINN_INT32 =
+  Zpos (XI (XO (XO (XO (XO (XI XH))))))
 
-(** val sizeof_WBSET : z **)
+(** val jbinn_BINN_UINT64 : z **)
 
-let sizeof_WBSET =
-  Zpos (XO (XO (XO (XI XH))))
+let jbinn_BINN_UINT64 =
+  Zpos (XO (XO (XO (XO (XO (XO (XO XH)))))))
 
-(** val sizeof_WBCOPY : z **)
+(** val jbinn_BINN_INT64 : z **)
 
-let sizeof_WBCOPY =
-  Zpos (XO (XO (XI (XI XH))))
+let jbinn_BINN_INT64 =
+  Zpos (XI (XO (XO (XO (XO (XO (XO XH)))))))
 
-(** val sizeof_WBWRITE : z **)
+(** val jbinn_BINN_FLOAT32 : z **)
 
-let sizeof_WBWRITE =
-  Zpos (XO (XO (XI (XO XH))))
+let jbinn_BINN_FLOAT32 =
+  Zpos (XO (XI (XO (XO (XO (XI XH))))))
 
-(** val sizeof_WBRESIZE : z **)
+(** val jbinn_BINN_FLOAT64 : z **)
 
-let sizeof_WBRESIZE =
-  Zpos (XO (XO (XI (XO XH))))
+let jbinn_BINN_FLOAT64 =
+  Zpos (XO (XI (XO (XO (XO (XO (XO XH)))))))
 
-(** val sizeof_WBSAVEPOINT : z **)
+(** val jbinn_BINN_DOUBLE : z **)
 
-let sizeof_WBSAVEPOINT =
-  Zpos (XO (XO (XI XH)))
+let jbinn_BINN_DOUBLE =
+  Zpos (XO (XI (XO (XO (XO (XO (XO XH)))))))
 
-(** val offsetof_WBSEP_crc : z **)
+(** val jbinn_BINN_STRING : z **)
 
-let offsetof_WBSEP_crc =
-  Zpos (XO (XO XH))
+let jbinn_BINN_STRING =
+  Zpos (XO (XO (XO (XO (XO (XI (XO XH)))))))
 
-(** val offsetof_WBSEP_len : z **)
+(** val jbinn_STORAGE_NOBYTES : z **)
 
-let offsetof_WBSEP_len =
-  Zpos (XO (XO (XO XH)))
+let jbinn_STORAGE_NOBYTES =
+  Z0
 
-(** val offsetof_WBSET_val : z **)
+(** val jbinn_STORAGE_BYTE : z **)
 
-let offsetof_WBSET_val =
-  Zpos (XO (XO XH))
+let jbinn_STORAGE_BYTE =
+  Zpos (XO (XO (XO (XO (XO XH)))))
 
-(** val offsetof_WBSET_off : z **)
+(** val jbinn_STORAGE_WORD : z **)
 
-let offsetof_WBSET_off =
-  Zpos (XO (XO (XO XH)))
+let jbinn_STORAGE_WORD =
+  Zpos (XO (XO (XO (XO (XO (XO XH))))))
 
-(** val offsetof_WBSET_len : z **)
+(** val jbinn_STORAGE_DWORD : z **)
 
-let offsetof_WBSET_len =
+let jbinn_STORAGE_DWORD =
+  Zpos (XO (XO (XO (XO (XO (XI XH))))))
+
+(** val jbinn_STORAGE_QWORD : z **)
+
+let jbinn_STORAGE_QWORD =
+  Zpos (XO (XO (XO (XO (XO (XO (XO XH)))))))
+
+(** val jbinn_STORAGE_STRING : z **)
+
+let jbinn_STORAGE_STRING =
+  Zpos (XO (XO (XO (XO (XO (XI (XO XH)))))))
+
+(** val jbinn_STORAGE_BLOB : z **)
+
+let jbinn_STORAGE_BLOB =
+  Zpos (XO (XO (XO (XO (XO (XO (XI XH)))))))
+
+(** val jbinn_STORAGE_CONTAINER : z **)
+
+let jbinn_STORAGE_CONTAINER =
+  Zpos (XO (XO (XO (XO (XO (XI (XI XH)))))))
+
+(** val jbinn_STORAGE_MASK : z **)
+
+let jbinn_STORAGE_MASK =
+  Zpos (XO (XO (XO (XO (XO (XI (XI XH)))))))
+
+(** val jbinn_STORAGE_HAS_MORE : z **)
+
+let jbinn_STORAGE_HAS_MORE =
   Zpos (XO (XO (XO (XO XH))))
 
-(** val offsetof_WBCOPY_off : z **)
+(** val jbinn_MIN_BINN_SIZE : z **)
 
-let offsetof_WBCOPY_off =
-  Zpos (XO (XO XH))
-
-(** val offsetof_WBCOPY_len : z **)
-
-let offsetof_WBCOPY_len =
-  Zpos (XO (XO (XI XH)))
-
-(** val offsetof_WBCOPY_noff : z **)
-
-let offsetof_WBCOPY_noff =
-  Zpos (XO (XO (XI (XO XH))))
-
-(** val offsetof_WBWRITE_crc : z **)
-
-let offsetof_WBWRITE_crc =
-  Zpos (XO (XO XH))
-
-(** val offsetof_WBWRITE_len : z **)
-
-let offsetof_WBWRITE_len =
-  Zpos (XO (XO (XO XH)))
-
-(** val offsetof_WBWRITE_off : z **)
-
-let offsetof_WBWRITE_off =
-  Zpos (XO (XO (XI XH)))
-
-(** val offsetof_WBRESIZE_osize : z **)
-
-let offsetof_WBRESIZE_osize =
-  Zpos (XO (XO XH))
-
-(** val offsetof_WBRESIZE_nsize : z **)
-
-let offsetof_WBRESIZE_nsize =
-  Zpos (XO (XO (XI XH)))
-
-(** val offsetof_WBSAVEPOINT_ts : z **)
-
-let offsetof_WBSAVEPOINT_ts =
-  Zpos (XO (XO XH))
-
-(** val iwu_crc32_table : z list **)
-
-let iwu_crc32_table =
-  Z0 :: ((Zpos (XI (XI (XI (XO (XI (XI (XO (XI (XI (XO (XI (XI (XI (XO (XO
-    (XO (XI (XO (XO (XO (XO (XO (XI (XI (XO (XO
-    XH))))))))))))))))))))))))))) :: ((Zpos (XO (XI (XI (XI (XO (XI (XI (XO
-    (XI (XI (XO (XI (XI (XI (XO (XO (XO (XI (XO (XO (XO (XO (XO (XI (XI (XO
-    (XO XH)))))))))))))))))))))))))))) :: ((Zpos (XI (XO (XO (XI (XI (XO (XI
-    (XI (XO (XI (XI (XO (XO (XI (XO (XO (XI (XI (XO (XO (XO (XO (XI (XO (XI
-    (XO (XI XH)))))))))))))))))))))))))))) :: ((Zpos (XO (XO (XI (XI (XI (XO
-    (XI (XI (XO (XI (XI (XO (XI (XI (XI (XO (XO (XO (XI (XO (XO (XO (XO (XO
-    (XI (XI (XO (XO XH))))))))))))))))))))))))))))) :: ((Zpos (XI (XI (XO (XI
-    (XO (XI (XI (XO (XI (XI (XO (XI (XO (XI (XI (XO (XI (XO (XI (XO (XO (XO
-    (XI (XI (XI (XI (XI (XO XH))))))))))))))))))))))))))))) :: ((Zpos (XO (XI
-    (XO (XO (XI (XI (XO (XI (XI (XO (XI (XI (XO (XO (XI (XO (XO (XI (XI (XO
-    (XO (XO (XO (XI (XO (XI (XO (XI XH))))))))))))))))))))))))))))) :: ((Zpos
-    (XI (XO (XI (XO (XO (XO (XO (XO (XO (XO (XO (XO (XI (XO (XI (XO (XI (XI
-    (XI (XO (XO (XO (XI (XO (XO (XI (XI (XI
-    XH))))))))))))))))))))))))))))) :: ((Zpos (XO (XO (XO (XI (XI (XI (XO (XI
-    (XI (XO (XI (XI (XO (XI (XI (XI (XO (XO (XO (XI (XO (XO (XO (XO (XO (XI
-    (XI (XO (XO XH)))))))))))))))))))))))))))))) :: ((Zpos (XI (XI (XI (XI
-    (XO (XO (XO (XO (XO (XO (XO (XO (XI (XI (XI (XI (XI (XO (XO (XI (XO (XO
-    (XI (XI (XO (XI (XO (XO (XO XH)))))))))))))))))))))))))))))) :: ((Zpos
-    (XO (XI (XI (XO (XI (XO (XI (XI (XO (XI (XI (XO (XI (XO (XI (XI (XO (XI
-    (XO (XI (XO (XO (XO (XI (XI (XI (XI (XI (XO
-    XH)))))))))))))))))))))))))))))) :: ((Zpos (XI (XO (XO (XO (XO (XI (XI
-    (XO (XI (XI (XO (XI (XO (XO (XI (XI (XI (XI (XO (XI (XO (XO (XI (XO (XI
-    (XI (XO (XI (XO XH)))))))))))))))))))))))))))))) :: ((Zpos (XO (XO (XI
-    (XO (XO (XI (XI (XO (XI (XI (XO (XI (XI (XO (XO (XI (XO (XO (XI (XI (XO
-    (XO (XO (XO (XI (XO (XI (XO (XI
-    XH)))))))))))))))))))))))))))))) :: ((Zpos (XI (XI (XO (XO (XI (XO (XI
-    (XI (XO (XI (XI (XO (XO (XO (XO (XI (XI (XO (XI (XI (XO (XO (XI (XI (XI
-    (XO (XO (XO (XI XH)))))))))))))))))))))))))))))) :: ((Zpos (XO (XI (XO
-    (XI (XO (XO (XO (XO (XO (XO (XO (XO (XO (XI (XO (XI (XO (XI (XI (XI (XO
-    (XO (XO (XI (XO (XO (XI (XI (XI
-    XH)))))))))))))))))))))))))))))) :: ((Zpos (XI (XO (XI (XI (XI (XI (XO
-    (XI (XI (XO (XI (XI (XI (XI (XO (XI (XI (XI (XI (XI (XO (XO (XI (XO (XO
-    (XO (XO (XI (XI XH)))))))))))))))))))))))))))))) :: ((Zpos (XO (XO (XO
-    (XO (XI (XI (XI (XO (XI (XI (XO (XI (XI (XO (XI (XI (XI (XO (XO (XO (XI
-    (XO (XO (XO (XO (XO (XI (XI (XO (XO
-    XH))))))))))))))))))))))))))))))) :: ((Zpos (XI (XI (XI (XO (XO (XO (XI
-    (XI (XO (XI (XI (XO (XO (XO (XI (XI (XO (XO (XO (XO (XI (XO (XI (XI (XO
-    (XO (XO (XI (XO (XO XH))))))))))))))))))))))))))))))) :: ((Zpos (XO (XI
-    (XI (XI (XI (XO (XO (XO (XO (XO (XO (XO (XO (XI (XI (XI (XI (XI (XO (XO
-    (XI (XO (XO (XI (XI (XO (XI (XO (XO (XO
-    XH))))))))))))))))))))))))))))))) :: ((Zpos (XI (XO (XO (XI (XO (XI (XO
-    (XI (XI (XO (XI (XI (XI (XI (XI (XI (XO (XI (XO (XO (XI (XO (XI (XO (XI
-    (XO (XO (XO (XO (XO XH))))))))))))))))))))))))))))))) :: ((Zpos (XO (XO
-    (XI (XI (XO (XI (XO (XI (XI (XO (XI (XI (XO (XI (XO (XI (XI (XO (XI (XO
-    (XI (XO (XO (XO (XI (XI (XI (XI (XI (XO
-    XH))))))))))))))))))))))))))))))) :: ((Zpos (XI (XI (XO (XI (XI (XO (XO
-    (XO (XO (XO (XO (XO (XI (XI (XO (XI (XO (XO (XI (XO (XI (XO (XI (XI (XI
-    (XI (XO (XI (XI (XO XH))))))))))))))))))))))))))))))) :: ((Zpos (XO (XI
-    (XO (XO (XO (XO (XI (XI (XO (XI (XI (XO (XI (XO (XO (XI (XI (XI (XI (XO
-    (XI (XO (XO (XI (XO (XI (XI (XO (XI (XO
-    XH))))))))))))))))))))))))))))))) :: ((Zpos (XI (XO (XI (XO (XI (XI (XI
-    (XO (XI (XI (XO (XI (XO (XO (XO (XI (XO (XI (XI (XO (XI (XO (XI (XO (XO
-    (XI (XO (XO (XI (XO XH))))))))))))))))))))))))))))))) :: ((Zpos (XO (XO
-    (XO (XI (XO (XO (XI (XI (XO (XI (XI (XO (XI (XI (XO (XO (XI (XO (XO (XI
-    (XI (XO (XO (XO (XO (XI (XO (XI (XO (XI
-    XH))))))))))))))))))))))))))))))) :: ((Zpos (XI (XI (XI (XI (XI (XI (XI
-    (XO (XI (XI (XO (XI (XO (XI (XO (XO (XO (XO (XO (XI (XI (XO (XI (XI (XO
-    (XI (XI (XI (XO (XI XH))))))))))))))))))))))))))))))) :: ((Zpos (XO (XI
-    (XI (XO (XO (XI (XO (XI (XI (XO (XI (XI (XO (XO (XO (XO (XI (XI (XO (XI
-    (XI (XO (XO (XI (XI (XI (XO (XO (XO (XI
-    XH))))))))))))))))))))))))))))))) :: ((Zpos (XI (XO (XO (XO (XI (XO (XO
-    (XO (XO (XO (XO (XO (XI (XO (XO (XO (XO (XI (XO (XI (XI (XO (XI (XO (XI
-    (XI (XI (XO (XO (XI XH))))))))))))))))))))))))))))))) :: ((Zpos (XO (XO
-    (XI (XO (XI (XO (XO (XO (XO (XO (XO (XO (XO (XO (XI (XO (XI (XO (XI (XI
-    (XI (XO (XO (XO (XI (XO (XO (XI (XI (XI
-    XH))))))))))))))))))))))))))))))) :: ((Zpos (XI (XI (XO (XO (XO (XI (XO
-    (XI (XI (XO (XI (XI (XI (XO (XI (XO (XO (XO (XI (XI (XI (XO (XI (XI (XI
-    (XO (XI (XI (XI (XI XH))))))))))))))))))))))))))))))) :: ((Zpos (XO (XI
-    (XO (XI (XI (XI (XI (XO (XI (XI (XO (XI (XI (XI (XI (XO (XI (XI (XI (XI
-    (XI (XO (XO (XI (XO (XO (XO (XO (XI (XI
-    XH))))))))))))))))))))))))))))))) :: ((Zpos (XI (XO (XI (XI (XO (XO (XI
-    (XI (XO (XI (XI (XO (XO (XI (XI (XO (XO (XI (XI (XI (XI (XO (XI (XO (XO
-    (XO (XI (XO (XI (XI XH))))))))))))))))))))))))))))))) :: ((Zpos (XO (XO
-    (XO (XO (XO (XI (XI (XI (XO (XI (XI (XO (XI (XI (XO (XI (XI (XI (XO (XO
-    (XO (XI (XO (XO (XO (XO (XO (XI (XI (XO (XO
-    XH)))))))))))))))))))))))))))))))) :: ((Zpos (XI (XI (XI (XO (XI (XO (XI
-    (XO (XI (XI (XO (XI (XO (XI (XO (XI (XO (XI (XO (XO (XO (XI (XI (XI (XO
-    (XO (XI (XI (XI (XO (XO XH)))))))))))))))))))))))))))))))) :: ((Zpos (XO
-    (XI (XI (XI (XO (XO (XO (XI (XI (XO (XI (XI (XO (XO (XO (XI (XI (XO (XO
-    (XO (XO (XI (XO (XI (XI (XO (XO (XO (XI (XO (XO
-    XH)))))))))))))))))))))))))))))))) :: ((Zpos (XI (XO (XO (XI (XI (XI (XO
-    (XO (XO (XO (XO (XO (XI (XO (XO (XI (XO (XO (XO (XO (XO (XI (XI (XO (XI
-    (XO (XI (XO (XI (XO (XO XH)))))))))))))))))))))))))))))))) :: ((Zpos (XO
-    (XO (XI (XI (XI (XI (XO (XO (XO (XO (XO (XO (XO (XO (XI (XI (XI (XI (XI
-    (XO (XO (XI (XO (XO (XI (XI (XO (XI (XO (XO (XO
-    XH)))))))))))))))))))))))))))))))) :: ((Zpos (XI (XI (XO (XI (XO (XO (XO
-    (XI (XI (XO (XI (XI (XI (XO (XI (XI (XO (XI (XI (XO (XO (XI (XI (XI (XI
-    (XI (XI (XI (XO (XO (XO XH)))))))))))))))))))))))))))))))) :: ((Zpos (XO
-    (XI (XO (XO (XI (XO (XI (XO (XI (XI (XO (XI (XI (XI (XI (XI (XI (XO (XI
-    (XO (XO (XI (XO (XI (XO (XI (XO (XO (XO (XO (XO
-    XH)))))))))))))))))))))))))))))))) :: ((Zpos (XI (XO (XI (XO (XO (XI (XI
-    (XI (XO (XI (XI (XO (XO (XI (XI (XI (XO (XO (XI (XO (XO (XI (XI (XO (XO
-    (XI (XI (XO (XO (XO (XO XH)))))))))))))))))))))))))))))))) :: ((Zpos (XO
-    (XO (XO (XI (XI (XO (XI (XO (XI (XI (XO (XI (XI (XO (XI (XO (XI (XI (XO
-    (XI (XO (XI (XO (XO (XO (XI (XI (XI (XI (XI (XO
-    XH)))))))))))))))))))))))))))))))) :: ((Zpos (XI (XI (XI (XI (XO (XI (XI
-    (XI (XO (XI (XI (XO (XO (XO (XI (XO (XO (XI (XO (XI (XO (XI (XI (XI (XO
-    (XI (XO (XI (XI (XI (XO XH)))))))))))))))))))))))))))))))) :: ((Zpos (XO
-    (XI (XI (XO (XI (XI (XO (XO (XO (XO (XO (XO (XO (XI (XI (XO (XI (XO (XO
-    (XI (XO (XI (XO (XI (XI (XI (XI (XO (XI (XI (XO
-    XH)))))))))))))))))))))))))))))))) :: ((Zpos (XI (XO (XO (XO (XO (XO (XO
-    (XI (XI (XO (XI (XI (XI (XI (XI (XO (XO (XO (XO (XI (XO (XI (XI (XO (XI
-    (XI (XO (XO (XI (XI (XO XH)))))))))))))))))))))))))))))))) :: ((Zpos (XO
-    (XO (XI (XO (XO (XO (XO (XI (XI (XO (XI (XI (XO (XI (XO (XO (XI (XI (XI
-    (XI (XO (XI (XO (XO (XI (XO (XI (XI (XO (XI (XO
-    XH)))))))))))))))))))))))))))))))) :: ((Zpos (XI (XI (XO (XO (XI (XI (XO
-    (XO (XO (XO (XO (XO (XI (XI (XO (XO (XO (XI (XI (XI (XO (XI (XI (XI (XI
-    (XO (XO (XI (XO (XI (XO XH)))))))))))))))))))))))))))))))) :: ((Zpos (XO
-    (XI (XO (XI (XO (XI (XI (XI (XO (XI (XI (XO (XI (XO (XO (XO (XI (XO (XI
-    (XI (XO (XI (XO (XI (XO (XO (XI (XO (XO (XI (XO
-    XH)))))))))))))))))))))))))))))))) :: ((Zpos (XI (XO (XI (XI (XI (XO (XI
-    (XO (XI (XI (XO (XI (XO (XO (XO (XO (XO (XO (XI (XI (XO (XI (XI (XO (XO
-    (XO (XO (XO (XO (XI (XO XH)))))))))))))))))))))))))))))))) :: ((Zpos (XO
-    (XO (XO (XO (XI (XO (XO (XI (XI (XO (XI (XI (XO (XI (XI (XO (XO (XI (XO
-    (XO (XI (XI (XO (XO (XO (XO (XI (XO (XI (XO (XI
-    XH)))))))))))))))))))))))))))))))) :: ((Zpos (XI (XI (XI (XO (XO (XI (XO
-    (XO (XO (XO (XO (XO (XI (XI (XI (XO (XI (XI (XO (XO (XI (XI (XI (XI (XO
-    (XO (XO (XO (XI (XO (XI XH)))))))))))))))))))))))))))))))) :: ((Zpos (XO
-    (XI (XI (XI (XI (XI (XI (XI (XO (XI (XI (XO (XI (XO (XI (XO (XO (XO (XO
-    (XO (XI (XI (XO (XI (XI (XO (XI (XI (XI (XO (XI
-    XH)))))))))))))))))))))))))))))))) :: ((Zpos (XI (XO (XO (XI (XO (XO (XI
-    (XO (XI (XI (XO (XI (XO (XO (XI (XO (XI (XO (XO (XO (XI (XI (XI (XO (XI
-    (XO (XO (XI (XI (XO (XI XH)))))))))))))))))))))))))))))))) :: ((Zpos (XO
-    (XO (XI (XI (XO (XO (XI (XO (XI (XI (XO (XI (XI (XO (XO (XO (XO (XI (XI
-    (XO (XI (XI (XO (XO (XI (XI (XI (XO (XO (XO (XI
-    XH)))))))))))))))))))))))))))))))) :: ((Zpos (XI (XI (XO (XI (XI (XI (XI
-    (XI (XO (XI (XI (XO (XO (XO (XO (XO (XI (XI (XI (XO (XI (XI (XI (XI (XI
-    (XI (XO (XO (XO (XO (XI XH)))))))))))))))))))))))))))))))) :: ((Zpos (XO
-    (XI (XO (XO (XO (XI (XO (XO (XO (XO (XO (XO (XO (XI (XO (XO (XO (XO (XI
-    (XO (XI (XI (XO (XI (XO (XI (XI (XI (XO (XO (XI
-    XH)))))))))))))))))))))))))))))))) :: ((Zpos (XI (XO (XI (XO (XI (XO (XO
-    (XI (XI (XO (XI (XI (XI (XI (XO (XO (XI (XO (XI (XO (XI (XI (XI (XO (XO
-    (XI (XO (XI (XO (XO (XI XH)))))))))))))))))))))))))))))))) :: ((Zpos (XO
-    (XO (XO (XI (XO (XI (XO (XO (XO (XO (XO (XO (XO (XO (XO (XI (XO (XI (XO
-    (XI (XI (XI (XO (XO (XO (XI (XO (XO (XI (XI (XI
-    XH)))))))))))))))))))))))))))))))) :: ((Zpos (XI (XI (XI (XI (XI (XO (XO
-    (XI (XI (XO (XI (XI (XI (XO (XO (XI (XI (XI (XO (XI (XI (XI (XI (XI (XO
-    (XI (XI (XO (XI (XI (XI XH)))))))))))))))))))))))))))))))) :: ((Zpos (XO
-    (XI (XI (XO (XO (XO (XI (XO (XI (XI (XO (XI (XI (XI (XO (XI (XO (XO (XO
-    (XI (XI (XI (XO (XI (XI (XI (XO (XI (XI (XI (XI
-    XH)))))))))))))))))))))))))))))))) :: ((Zpos (XI (XO (XO (XO (XI (XI (XI
-    (XI (XO (XI (XI (XO (XO (XI (XO (XI (XI (XO (XO (XI (XI (XI (XI (XO (XI
-    (XI (XI (XI (XI (XI (XI XH)))))))))))))))))))))))))))))))) :: ((Zpos (XO
-    (XO (XI (XO (XI (XI (XI (XI (XO (XI (XI (XO (XI (XI (XI (XI (XO (XI (XI
-    (XI (XI (XI (XO (XO (XI (XO (XO (XO (XO (XI (XI
-    XH)))))))))))))))))))))))))))))))) :: ((Zpos (XI (XI (XO (XO (XO (XO (XI
-    (XO (XI (XI (XO (XI (XO (XI (XI (XI (XI (XI (XI (XI (XI (XI (XI (XI (XI
-    (XO (XI (XO (XO (XI (XI XH)))))))))))))))))))))))))))))))) :: ((Zpos (XO
-    (XI (XO (XI (XI (XO (XO (XI (XI (XO (XI (XI (XO (XO (XI (XI (XO (XO (XI
-    (XI (XI (XI (XO (XI (XO (XO (XO (XI (XO (XI (XI
-    XH)))))))))))))))))))))))))))))))) :: ((Zpos (XI (XO (XI (XI (XO (XI (XO
-    (XO (XO (XO (XO (XO (XI (XO (XI (XI (XI (XO (XI (XI (XI (XI (XI (XO (XO
-    (XO (XI (XI (XO (XI (XI XH)))))))))))))))))))))))))))))))) :: ((Zpos (XI
-    (XI (XI (XO (XI (XI (XI (XO (XO (XO (XO (XO (XI (XI (XI (XO (XO (XI (XI
-    (XO (XO (XO (XO (XI (XO (XO (XI (XO (XI
-    XH)))))))))))))))))))))))))))))) :: ((Zpos (XO (XO (XO (XO (XO (XO (XI
-    (XI (XI (XO (XI (XI (XO (XI (XI (XO (XI (XI (XI (XO (XO (XO (XI (XO (XO
-    (XO (XO (XO (XI XH)))))))))))))))))))))))))))))) :: ((Zpos (XI (XO (XO
-    (XI (XI (XO (XO (XO (XI (XI (XO (XI (XO (XO (XI (XO (XO (XO (XI (XO (XO
-    (XO (XO (XO (XI (XO (XI (XI (XI
-    XH)))))))))))))))))))))))))))))) :: ((Zpos (XO (XI (XI (XI (XO (XI (XO
-    (XI (XO (XI (XI (XO (XI (XO (XI (XO (XI (XO (XI (XO (XO (XO (XI (XI (XI
-    (XO (XO (XI (XI XH)))))))))))))))))))))))))))))) :: ((Zpos (XI (XI (XO
-    (XI (XO (XI (XO (XI (XO (XI (XI (XO (XO (XO (XO (XO (XO (XI (XO (XO (XO
-    (XO (XO (XI (XI (XI (XI (XO (XO
-    XH)))))))))))))))))))))))))))))) :: ((Zpos (XO (XO (XI (XI (XI (XO (XO
-    (XO (XI (XI (XO (XI (XI (XO (XO (XO (XI (XI (XO (XO (XO (XO (XI (XO (XI
-    (XI (XO (XO (XO XH)))))))))))))))))))))))))))))) :: ((Zpos (XI (XO (XI
-    (XO (XO (XO (XI (XI (XI (XO (XI (XI (XI (XI (XO (XO (XO (XO (XO (XO (XO
-    (XO (XO (XO (XO (XI (XI (XI (XO
-    XH)))))))))))))))))))))))))))))) :: ((Zpos (XO (XI (XO (XO (XI (XI (XI
-    (XO (XO (XO (XO (XO (XO (XI (XO (XO (XI (XO (XO (XO (XO (XO (XI (XI (XO
-    (XI (XO (XI (XO XH)))))))))))))))))))))))))))))) :: ((Zpos (XI (XI (XI
-    (XI (XO (XO (XI (XI (XI (XO (XI (XI (XI (XO (XO (XI (XO (XI (XI (XI (XO
-    (XO (XO (XI (XO (XI (XO (XO XH))))))))))))))))))))))))))))) :: ((Zpos (XO
-    (XO (XO (XI (XI (XI (XI (XO (XO (XO (XO (XO (XO (XO (XO (XI (XI (XI (XI
-    (XI (XO (XO (XI (XO (XO (XI (XI (XO
-    XH))))))))))))))))))))))))))))) :: ((Zpos (XI (XO (XO (XO (XO (XI (XO (XI
-    (XO (XI (XI (XO (XO (XI (XO (XI (XO (XO (XI (XI (XO (XO (XO (XO (XI (XI
-    (XO (XI XH))))))))))))))))))))))))))))) :: ((Zpos (XO (XI (XI (XO (XI (XO
-    (XO (XO (XI (XI (XO (XI (XI (XI (XO (XI (XI (XO (XI (XI (XO (XO (XI (XI
-    (XI (XI (XI (XI XH))))))))))))))))))))))))))))) :: ((Zpos (XI (XI (XO (XO
-    (XI (XO (XO (XO (XI (XI (XO (XI (XO (XI (XI (XI (XO (XI (XO (XI (XO (XO
-    (XO (XI XH))))))))))))))))))))))))) :: ((Zpos (XO (XO (XI (XO (XO (XI (XO
-    (XI (XO (XI (XI (XO (XI (XI (XI (XI (XI (XI (XO (XI (XO (XO (XI (XO (XI
-    (XO XH))))))))))))))))))))))))))) :: ((Zpos (XI (XO (XI (XI (XI (XI (XI
-    (XO (XO (XO (XO (XO (XI (XO (XI (XI (XO (XO (XO (XI (XO (XO (XO (XO (XO
-    (XO (XO XH)))))))))))))))))))))))))))) :: ((Zpos (XO (XI (XO (XI (XO (XO
-    (XI (XI (XI (XO (XI (XI (XO (XO (XI (XI (XI (XO (XO (XI (XO (XO (XI (XI
-    (XO (XO (XI XH)))))))))))))))))))))))))))) :: ((Zpos (XI (XI (XI (XO (XO
-    (XO (XO (XO (XI (XI (XO (XI (XO (XI (XO (XI (XI (XI (XI (XO (XI (XO (XO
-    (XI (XO (XO (XO (XI (XI (XI XH))))))))))))))))))))))))))))))) :: ((Zpos
-    (XO (XO (XO (XO (XI (XI (XO (XI (XO (XI (XI (XO (XI (XI (XO (XI (XO (XI
-    (XI (XO (XI (XO (XI (XO (XO (XO (XI (XI (XI (XI
-    XH))))))))))))))))))))))))))))))) :: ((Zpos (XI (XO (XO (XI (XO (XI (XI
-    (XO (XO (XO (XO (XO (XI (XO (XO (XI (XI (XO (XI (XO (XI (XO (XO (XO (XI
-    (XO (XO (XO (XI (XI XH))))))))))))))))))))))))))))))) :: ((Zpos (XO (XI
-    (XI (XI (XI (XO (XI (XI (XI (XO (XI (XI (XO (XO (XO (XI (XO (XO (XI (XO
-    (XI (XO (XI (XI (XI (XO (XI (XO (XI (XI
-    XH))))))))))))))))))))))))))))))) :: ((Zpos (XI (XI (XO (XI (XI (XO (XI
-    (XI (XI (XO (XI (XI (XI (XO (XI (XI (XI (XI (XO (XO (XI (XO (XO (XI (XI
-    (XI (XO (XI (XO (XI XH))))))))))))))))))))))))))))))) :: ((Zpos (XO (XO
-    (XI (XI (XO (XI (XI (XO (XO (XO (XO (XO (XO (XO (XI (XI (XO (XI (XO (XO
-    (XI (XO (XI (XO (XI (XI (XI (XI (XO (XI
-    XH))))))))))))))))))))))))))))))) :: ((Zpos (XI (XO (XI (XO (XI (XI (XO
-    (XI (XO (XI (XI (XO (XO (XI (XI (XI (XI (XO (XO (XO (XI (XO (XO (XO (XO
-    (XI (XO (XO (XO (XI XH))))))))))))))))))))))))))))))) :: ((Zpos (XO (XI
-    (XO (XO (XO (XO (XO (XO (XI (XI (XO (XI (XI (XI (XI (XI (XO (XO (XO (XO
-    (XI (XO (XI (XI (XO (XI (XI (XO (XO (XI
-    XH))))))))))))))))))))))))))))))) :: ((Zpos (XI (XI (XI (XI (XI (XI (XO
-    (XI (XO (XI (XI (XO (XO (XO (XI (XO (XI (XI (XI (XI (XI (XO (XO (XI (XO
-    (XI (XI (XI (XI (XO XH))))))))))))))))))))))))))))))) :: ((Zpos (XO (XO
-    (XO (XI (XO (XO (XO (XO (XI (XI (XO (XI (XI (XO (XI (XO (XO (XI (XI (XI
-    (XI (XO (XI (XO (XO (XI (XO (XI (XI (XO
-    XH))))))))))))))))))))))))))))))) :: ((Zpos (XI (XO (XO (XO (XI (XO (XI
-    (XI (XI (XO (XI (XI (XI (XI (XI (XO (XI (XO (XI (XI (XI (XO (XO (XO (XI
-    (XI (XI (XO (XI (XO XH))))))))))))))))))))))))))))))) :: ((Zpos (XO (XI
-    (XI (XO (XO (XI (XI (XO (XO (XO (XO (XO (XO (XI (XI (XO (XO (XO (XI (XI
-    (XI (XO (XI (XI (XI (XI (XO (XO (XI (XO
-    XH))))))))))))))))))))))))))))))) :: ((Zpos (XI (XI (XO (XO (XO (XI (XI
-    (XO (XO (XO (XO (XO (XI (XI (XO (XO (XI (XI (XO (XI (XI (XO (XO (XI (XI
-    (XO (XI (XI (XO (XO XH))))))))))))))))))))))))))))))) :: ((Zpos (XO (XO
-    (XI (XO (XI (XO (XI (XI (XI (XO (XI (XI (XO (XI (XO (XO (XO (XI (XO (XI
-    (XI (XO (XI (XO (XI (XO (XO (XI (XO (XO
-    XH))))))))))))))))))))))))))))))) :: ((Zpos (XI (XO (XI (XI (XO (XO (XO
-    (XO (XI (XI (XO (XI (XO (XO (XO (XO (XI (XO (XO (XI (XI (XO (XO (XO (XO
-    (XO (XI (XO (XO (XO XH))))))))))))))))))))))))))))))) :: ((Zpos (XO (XI
-    (XO (XI (XI (XI (XO (XI (XO (XI (XI (XO (XI (XO (XO (XO (XO (XO (XO (XI
-    (XI (XO (XI (XI (XO (XO (XO (XO (XO (XO
-    XH))))))))))))))))))))))))))))))) :: ((Zpos (XI (XI (XI (XO (XI (XO (XO
-    (XI (XO (XI (XI (XO (XO (XO (XI (XI (XI (XO (XI (XO (XO (XI (XO (XI (XO
-    (XO (XI (XI (XO (XI (XO XH)))))))))))))))))))))))))))))))) :: ((Zpos (XO
-    (XO (XO (XO (XO (XI (XO (XO (XI (XI (XO (XI (XI (XO (XI (XI (XO (XO (XI
-    (XO (XO (XI (XI (XO (XO (XO (XO (XI (XO (XI (XO
-    XH)))))))))))))))))))))))))))))))) :: ((Zpos (XI (XO (XO (XI (XI (XI (XI
-    (XI (XI (XO (XI (XI (XI (XI (XI (XI (XI (XI (XI (XO (XO (XI (XO (XO (XI
-    (XO (XI (XO (XO (XI (XO XH)))))))))))))))))))))))))))))))) :: ((Zpos (XO
-    (XI (XI (XI (XO (XO (XI (XO (XO (XO (XO (XO (XO (XI (XI (XI (XO (XI (XI
-    (XO (XO (XI (XI (XI (XI (XO (XO (XO (XO (XI (XO
-    XH)))))))))))))))))))))))))))))))) :: ((Zpos (XI (XI (XO (XI (XO (XO (XI
-    (XO (XO (XO (XO (XO (XI (XI (XO (XI (XI (XO (XO (XO (XO (XI (XO (XI (XI
-    (XI (XI (XI (XI (XI (XO XH)))))))))))))))))))))))))))))))) :: ((Zpos (XO
-    (XO (XI (XI (XI (XI (XI (XI (XI (XO (XI (XI (XO (XI (XO (XI (XO (XO (XO
-    (XO (XO (XI (XI (XO (XI (XI (XO (XI (XI (XI (XO
-    XH)))))))))))))))))))))))))))))))) :: ((Zpos (XI (XO (XI (XO (XO (XI (XO
-    (XO (XI (XI (XO (XI (XO (XO (XO (XI (XI (XI (XO (XO (XO (XI (XO (XO (XO
-    (XI (XI (XO (XI (XI (XO XH)))))))))))))))))))))))))))))))) :: ((Zpos (XO
-    (XI (XO (XO (XI (XO (XO (XI (XO (XI (XI (XO (XI (XO (XO (XI (XO (XI (XO
-    (XO (XO (XI (XI (XI (XO (XI (XO (XO (XI (XI (XO
-    XH)))))))))))))))))))))))))))))))) :: ((Zpos (XI (XI (XI (XI (XO (XI (XO
-    (XO (XI (XI (XO (XI (XO (XI (XO (XO (XI (XO (XI (XI (XO (XI (XO (XI (XO
-    (XI (XO (XI (XO (XO (XO XH)))))))))))))))))))))))))))))))) :: ((Zpos (XO
-    (XO (XO (XI (XI (XO (XO (XI (XO (XI (XI (XO (XI (XI (XO (XO (XO (XO (XI
-    (XI (XO (XI (XI (XO (XO (XI (XI (XI (XO (XO (XO
-    XH)))))))))))))))))))))))))))))))) :: ((Zpos (XI (XO (XO (XO (XO (XO (XI
-    (XO (XO (XO (XO (XO (XI (XO (XO (XO (XI (XI (XI (XI (XO (XI (XO (XO (XI
-    (XI (XO (XO (XO (XO (XO XH)))))))))))))))))))))))))))))))) :: ((Zpos (XO
-    (XI (XI (XO (XI (XI (XI (XI (XI (XO (XI (XI (XO (XO (XO (XO (XO (XI (XI
-    (XI (XO (XI (XI (XI (XI (XI (XI (XO (XO (XO (XO
-    XH)))))))))))))))))))))))))))))))) :: ((Zpos (XI (XI (XO (XO (XI (XI (XI
-    (XI (XI (XO (XI (XI (XI (XO (XI (XO (XI (XO (XO (XI (XO (XI (XO (XI (XI
-    (XO (XO (XI (XI (XO (XO XH)))))))))))))))))))))))))))))))) :: ((Zpos (XO
-    (XO (XI (XO (XO (XO (XI (XO (XO (XO (XO (XO (XO (XO (XI (XO (XO (XO (XO
-    (XI (XO (XI (XI (XO (XI (XO (XI (XI (XI (XO (XO
-    XH)))))))))))))))))))))))))))))))) :: ((Zpos (XI (XO (XI (XI (XI (XO (XO
-    (XI (XO (XI (XI (XO (XO (XI (XI (XO (XI (XI (XO (XI (XO (XI (XO (XO (XO
-    (XO (XO (XO (XI (XO (XO XH)))))))))))))))))))))))))))))))) :: ((Zpos (XO
-    (XI (XO (XI (XO (XI (XO (XO (XI (XI (XO (XI (XI (XI (XI (XO (XO (XI (XO
-    (XI (XO (XI (XI (XI (XO (XO (XI (XO (XI (XO (XO
-    XH)))))))))))))))))))))))))))))))) :: ((Zpos (XI (XI (XI (XO (XO (XI (XI
-    (XI (XI (XO (XI (XI (XI (XO (XO (XO (XO (XO (XI (XO (XI (XI (XO (XI (XO
-    (XO (XO (XO (XO (XI (XI XH)))))))))))))))))))))))))))))))) :: ((Zpos (XO
-    (XO (XO (XO (XI (XO (XI (XO (XO (XO (XO (XO (XO (XO (XO (XO (XI (XO (XI
-    (XO (XI (XI (XI (XO (XO (XO (XI (XO (XO (XI (XI
-    XH)))))))))))))))))))))))))))))))) :: ((Zpos (XI (XO (XO (XI (XO (XO (XO
-    (XI (XO (XI (XI (XO (XO (XI (XO (XO (XO (XI (XI (XO (XI (XI (XO (XO (XI
-    (XO (XO (XI (XO (XI (XI XH)))))))))))))))))))))))))))))))) :: ((Zpos (XO
-    (XI (XI (XI (XI (XI (XO (XO (XI (XI (XO (XI (XI (XI (XO (XO (XI (XI (XI
-    (XO (XI (XI (XI (XI (XI (XO (XI (XI (XO (XI (XI
-    XH)))))))))))))))))))))))))))))))) :: ((Zpos (XI (XI (XO (XI (XI (XI (XO
-    (XO (XI (XI (XO (XI (XO (XI (XI (XO (XO (XO (XO (XO (XI (XI (XO (XI (XI
-    (XI (XO (XO (XI (XI (XI XH)))))))))))))))))))))))))))))))) :: ((Zpos (XO
-    (XO (XI (XI (XO (XO (XO (XI (XO (XI (XI (XO (XI (XI (XI (XO (XI (XO (XO
-    (XO (XI (XI (XI (XO (XI (XI (XI (XO (XI (XI (XI
-    XH)))))))))))))))))))))))))))))))) :: ((Zpos (XI (XO (XI (XO (XI (XO (XI
-    (XO (XO (XO (XO (XO (XI (XO (XI (XO (XO (XI (XO (XO (XI (XI (XO (XO (XO
-    (XI (XO (XI (XI (XI (XI XH)))))))))))))))))))))))))))))))) :: ((Zpos (XO
-    (XI (XO (XO (XO (XI (XI (XI (XI (XO (XI (XI (XO (XO (XI (XO (XI (XI (XO
-    (XO (XI (XI (XI (XI (XO (XI (XI (XI (XI (XI (XI
-    XH)))))))))))))))))))))))))))))))) :: ((Zpos (XI (XI (XI (XI (XI (XO (XI
-    (XO (XO (XO (XO (XO (XI (XI (XI (XI (XO (XO (XI (XI (XI (XI (XO (XI (XO
-    (XI (XI (XO (XO (XO (XI XH)))))))))))))))))))))))))))))))) :: ((Zpos (XO
-    (XO (XO (XI (XO (XI (XI (XI (XI (XO (XI (XI (XO (XI (XI (XI (XI (XO (XI
-    (XI (XI (XI (XI (XO (XO (XI (XO (XO (XO (XO (XI
-    XH)))))))))))))))))))))))))))))))) :: ((Zpos (XI (XO (XO (XO (XI (XI (XO
-    (XO (XI (XI (XO (XI (XO (XO (XI (XI (XO (XI (XI (XI (XI (XI (XO (XO (XI
-    (XI (XI (XI (XO (XO (XI XH)))))))))))))))))))))))))))))))) :: ((Zpos (XO
-    (XI (XI (XO (XO (XO (XO (XI (XO (XI (XI (XO (XI (XO (XI (XI (XI (XI (XI
-    (XI (XI (XI (XI (XI (XI (XI (XO (XI (XO (XO (XI
-    XH)))))))))))))))))))))))))))))))) :: ((Zpos (XI (XI (XO (XO (XO (XO (XO
-    (XI (XO (XI (XI (XO (XO (XO (XO (XI (XO (XO (XO (XI (XI (XI (XO (XI (XI
-    (XO (XI (XO (XI (XO (XI XH)))))))))))))))))))))))))))))))) :: ((Zpos (XO
-    (XO (XI (XO (XI (XI (XO (XO (XI (XI (XO (XI (XI (XO (XO (XI (XI (XO (XO
-    (XI (XI (XI (XI (XO (XI (XO (XO (XO (XI (XO (XI
-    XH)))))))))))))))))))))))))))))))) :: ((Zpos (XI (XO (XI (XI (XO (XI (XI
-    (XI (XI (XO (XI (XI (XI (XI (XO (XI (XO (XI (XO (XI (XI (XI (XO (XO (XO
-    (XO (XI (XI (XI (XO (XI XH)))))))))))))))))))))))))))))))) :: ((Zpos (XO
-    (XI (XO (XI (XI (XO (XI (XO (XO (XO (XO (XO (XO (XI (XO (XI (XI (XI (XO
-    (XI (XI (XI (XI (XI (XO (XO (XO (XI (XI (XO (XI
-    XH)))))))))))))))))))))))))))))))) :: ((Zpos (XO (XI (XI (XI (XO (XI (XI
-    (XI (XO (XO (XO (XO (XO (XI (XI (XI (XO (XO (XI (XI (XO (XO (XO (XO (XI
-    (XO (XO (XI (XO (XI XH))))))))))))))))))))))))))))))) :: ((Zpos (XI (XO
-    (XO (XI (XI (XO (XI (XO (XI (XO (XI (XI (XI (XI (XI (XI (XI (XO (XI (XI
-    (XO (XO (XI (XI (XI (XO (XI (XI (XO (XI
-    XH))))))))))))))))))))))))))))))) :: ((Zpos (XO (XO (XO (XO (XO (XO (XO
-    (XI (XI (XI (XO (XI (XI (XO (XI (XI (XO (XI (XI (XI (XO (XO (XO (XI (XO
-    (XO (XO (XO (XO (XI XH))))))))))))))))))))))))))))))) :: ((Zpos (XI (XI
-    (XI (XO (XI (XI (XO (XO (XO (XI (XI (XO (XO (XO (XI (XI (XI (XI (XI (XI
-    (XO (XO (XI (XO (XO (XO (XI (XO (XO (XI
-    XH))))))))))))))))))))))))))))))) :: ((Zpos (XO (XI (XO (XO (XI (XI (XO
-    (XO (XO (XI (XI (XO (XI (XO (XO (XI (XO (XO (XO (XI (XO (XO (XO (XO (XO
-    (XI (XO (XI (XI (XI XH))))))))))))))))))))))))))))))) :: ((Zpos (XI (XO
-    (XI (XO (XO (XO (XO (XI (XI (XI (XO (XI (XO (XO (XO (XI (XI (XO (XO (XI
-    (XO (XO (XI (XI (XO (XI (XI (XI (XI (XI
-    XH))))))))))))))))))))))))))))))) :: ((Zpos (XO (XO (XI (XI (XI (XO (XI
-    (XO (XI (XO (XI (XI (XO (XI (XO (XI (XO (XI (XO (XI (XO (XO (XO (XI (XI
-    (XI (XO (XO (XI (XI XH))))))))))))))))))))))))))))))) :: ((Zpos (XI (XI
-    (XO (XI (XO (XI (XI (XI (XO (XO (XO (XO (XI (XI (XO (XI (XI (XI (XO (XI
-    (XO (XO (XI (XO (XI (XI (XI (XO (XI (XI
-    XH))))))))))))))))))))))))))))))) :: ((Zpos (XO (XI (XI (XO (XI (XO (XI
-    (XO (XI (XO (XI (XI (XO (XO (XO (XO (XO (XO (XI (XO (XO (XO (XO (XO (XI
-    (XI (XI (XI (XO (XO XH))))))))))))))))))))))))))))))) :: ((Zpos (XI (XO
-    (XO (XO (XO (XI (XI (XI (XO (XO (XO (XO (XI (XO (XO (XO (XI (XO (XI (XO
-    (XO (XO (XI (XI (XI (XI (XO (XI (XO (XO
-    XH))))))))))))))))))))))))))))))) :: ((Zpos (XO (XO (XO (XI (XI (XI (XO
-    (XO (XO (XI (XI (XO (XI (XI (XO (XO (XO (XI (XI (XO (XO (XO (XO (XI (XO
-    (XI (XI (XO (XO (XO XH))))))))))))))))))))))))))))))) :: ((Zpos (XI (XI
-    (XI (XI (XO (XO (XO (XI (XI (XI (XO (XI (XO (XI (XO (XO (XI (XI (XI (XO
-    (XO (XO (XI (XO (XO (XI (XO (XO (XO (XO
-    XH))))))))))))))))))))))))))))))) :: ((Zpos (XO (XI (XO (XI (XO (XO (XO
-    (XI (XI (XI (XO (XI (XI (XI (XI (XO (XO (XO (XO (XO (XO (XO (XO (XO (XO
-    (XO (XI (XI (XI (XO XH))))))))))))))))))))))))))))))) :: ((Zpos (XI (XO
-    (XI (XI (XI (XI (XO (XO (XO (XI (XI (XO (XO (XI (XI (XO (XI (XO (XO (XO
-    (XO (XO (XI (XI (XO (XO (XO (XI (XI (XO
-    XH))))))))))))))))))))))))))))))) :: ((Zpos (XO (XO (XI (XO (XO (XI (XI
-    (XI (XO (XO (XO (XO (XO (XO (XI (XO (XO (XI (XO (XO (XO (XO (XO (XI (XI
-    (XO (XI (XO (XI (XO XH))))))))))))))))))))))))))))))) :: ((Zpos (XI (XI
-    (XO (XO (XI (XO (XI (XO (XI (XO (XI (XI (XI (XO (XI (XO (XI (XI (XO (XO
-    (XO (XO (XI (XO (XI (XO (XO (XO (XI (XO
-    XH))))))))))))))))))))))))))))))) :: ((Zpos (XO (XI (XI (XI (XI (XO (XO
-    (XI (XI (XI (XO (XI (XI (XI (XO (XO (XI (XO (XI (XI (XI (XO (XO (XO (XI
-    (XO (XI (XO (XO XH)))))))))))))))))))))))))))))) :: ((Zpos (XI (XO (XO
-    (XI (XO (XI (XO (XO (XO (XI (XI (XO (XO (XI (XO (XO (XO (XO (XI (XI (XI
-    (XO (XI (XI (XI (XO (XO (XO (XO
-    XH)))))))))))))))))))))))))))))) :: ((Zpos (XO (XO (XO (XO (XI (XI (XI
-    (XI (XO (XO (XO (XO (XO (XO (XO (XO (XI (XI (XI (XI (XI (XO (XO (XI (XO
-    (XO (XI (XI (XO XH)))))))))))))))))))))))))))))) :: ((Zpos (XI (XI (XI
-    (XO (XO (XO (XI (XO (XI (XO (XI (XI (XI (XO (XO (XO (XO (XI (XI (XI (XI
-    (XO (XI (XO (XO (XO (XO (XI (XO
-    XH)))))))))))))))))))))))))))))) :: ((Zpos (XO (XI (XO (XO (XO (XO (XI
-    (XO (XI (XO (XI (XI (XO (XO (XI (XO (XI (XO (XO (XI (XI (XO (XO (XO (XO
-    (XI (XI (XO (XI XH)))))))))))))))))))))))))))))) :: ((Zpos (XI (XO (XI
-    (XO (XI (XI (XI (XI (XO (XO (XO (XO (XI (XO (XI (XO (XO (XO (XO (XI (XI
-    (XO (XI (XI (XO (XI (XO (XO (XI
-    XH)))))))))))))))))))))))))))))) :: ((Zpos (XO (XO (XI (XI (XO (XI (XO
-    (XO (XO (XI (XI (XO (XI (XI (XI (XO (XI (XI (XO (XI (XI (XO (XO (XI (XI
-    (XI (XI (XI (XI XH)))))))))))))))))))))))))))))) :: ((Zpos (XI (XI (XO
-    (XI (XI (XO (XO (XI (XI (XI (XO (XI (XO (XI (XI (XO (XO (XI (XO (XI (XI
-    (XO (XI (XO (XI (XI (XO (XI (XI
-    XH)))))))))))))))))))))))))))))) :: ((Zpos (XO (XI (XI (XO (XO (XI (XO
-    (XO (XO (XI (XI (XO (XI (XO (XI (XI (XI (XO (XI (XO (XI (XO (XO (XO (XI
-    XH)))))))))))))))))))))))))) :: ((Zpos (XI (XO (XO (XO (XI (XO (XO (XI
-    (XI (XI (XO (XI (XO (XO (XI (XI (XO (XO (XI (XO (XI (XO (XI (XI (XI (XI
-    XH))))))))))))))))))))))))))) :: ((Zpos (XO (XO (XO (XI (XO (XO (XI (XO
-    (XI (XO (XI (XI (XO (XI (XI (XI (XI (XI (XI (XO (XI (XO (XO (XI (XO (XI
-    (XO XH)))))))))))))))))))))))))))) :: ((Zpos (XI (XI (XI (XI (XI (XI (XI
-    (XI (XO (XO (XO (XO (XI (XI (XI (XI (XO (XI (XI (XO (XI (XO (XI (XO (XO
-    (XI (XI XH)))))))))))))))))))))))))))) :: ((Zpos (XO (XI (XO (XI (XI (XI
-    (XI (XI (XO (XO (XO (XO (XO (XI (XO (XI (XI (XO (XO (XO (XI (XO (XO (XO
-    (XO (XO (XO (XO XH))))))))))))))))))))))))))))) :: ((Zpos (XI (XO (XI (XI
-    (XO (XO (XI (XO (XI (XO (XI (XI (XI (XI (XO (XI (XO (XO (XO (XO (XI (XO
-    (XI (XI (XO (XO (XI (XO XH))))))))))))))))))))))))))))) :: ((Zpos (XO (XO
-    (XI (XO (XI (XO (XO (XI (XI (XI (XO (XI (XI (XO (XO (XI (XI (XI (XO (XO
-    (XI (XO (XO (XI (XI (XO (XO (XI XH))))))))))))))))))))))))))))) :: ((Zpos
-    (XI (XI (XO (XO (XO (XI (XO (XO (XO (XI (XI (XO (XO (XO (XO (XI (XO (XI
-    (XO (XO (XI (XO (XI (XO (XI (XO (XI (XI
-    XH))))))))))))))))))))))))))))) :: ((Zpos (XO (XI (XI (XI (XO (XO (XO (XO
-    (XO (XI (XI (XO (XI (XO (XI (XO (XI (XI (XI (XI (XO (XI (XO (XO (XI (XO
-    (XO (XO (XI (XI (XI XH)))))))))))))))))))))))))))))))) :: ((Zpos (XI (XO
-    (XO (XI (XI (XI (XO (XI (XI (XI (XO (XI (XO (XO (XI (XO (XO (XI (XI (XI
-    (XO (XI (XI (XI (XI (XO (XI (XO (XI (XI (XI
-    XH)))))))))))))))))))))))))))))))) :: ((Zpos (XO (XO (XO (XO (XO (XI (XI
-    (XO (XI (XO (XI (XI (XO (XI (XI (XO (XI (XO (XI (XI (XO (XI (XO (XI (XO
-    (XO (XO (XI (XI (XI (XI XH)))))))))))))))))))))))))))))))) :: ((Zpos (XI
-    (XI (XI (XO (XI (XO (XI (XI (XO (XO (XO (XO (XI (XI (XI (XO (XO (XO (XI
-    (XI (XO (XI (XI (XO (XO (XO (XI (XI (XI (XI (XI
-    XH)))))))))))))))))))))))))))))))) :: ((Zpos (XO (XI (XO (XO (XI (XO (XI
-    (XI (XO (XO (XO (XO (XO (XI (XO (XO (XI (XI (XO (XI (XO (XI (XO (XO (XO
-    (XI (XO (XO (XO (XI (XI XH)))))))))))))))))))))))))))))))) :: ((Zpos (XI
-    (XO (XI (XO (XO (XI (XI (XO (XI (XO (XI (XI (XI (XI (XO (XO (XO (XI (XO
-    (XI (XO (XI (XI (XI (XO (XI (XI (XO (XO (XI (XI
-    XH)))))))))))))))))))))))))))))))) :: ((Zpos (XO (XO (XI (XI (XI (XI (XO
-    (XI (XI (XI (XO (XI (XI (XO (XO (XO (XI (XO (XO (XI (XO (XI (XO (XI (XI
-    (XI (XO (XI (XO (XI (XI XH)))))))))))))))))))))))))))))))) :: ((Zpos (XI
-    (XI (XO (XI (XO (XO (XO (XO (XO (XI (XI (XO (XO (XO (XO (XO (XO (XO (XO
-    (XI (XO (XI (XI (XO (XI (XI (XI (XI (XO (XI (XI
-    XH)))))))))))))))))))))))))))))))) :: ((Zpos (XO (XI (XI (XO (XI (XI (XO
-    (XI (XI (XI (XO (XI (XI (XI (XO (XI (XI (XI (XI (XO (XO (XI (XO (XO (XI
-    (XI (XI (XO (XI (XO (XI XH)))))))))))))))))))))))))))))))) :: ((Zpos (XI
-    (XO (XO (XO (XO (XO (XO (XO (XO (XI (XI (XO (XO (XI (XO (XI (XO (XI (XI
-    (XO (XO (XI (XI (XI (XI (XI (XO (XO (XI (XO (XI
-    XH)))))))))))))))))))))))))))))))) :: ((Zpos (XO (XO (XO (XI (XI (XO (XI
-    (XI (XO (XO (XO (XO (XO (XO (XO (XI (XI (XO (XI (XO (XO (XI (XO (XI (XO
-    (XI (XI (XI (XI (XO (XI XH)))))))))))))))))))))))))))))))) :: ((Zpos (XI
-    (XI (XI (XI (XO (XI (XI (XO (XI (XO (XI (XI (XI (XO (XO (XI (XO (XO (XI
-    (XO (XO (XI (XI (XO (XO (XI (XO (XI (XI (XO (XI
-    XH)))))))))))))))))))))))))))))))) :: ((Zpos (XO (XI (XO (XI (XO (XI (XI
-    (XO (XI (XO (XI (XI (XO (XO (XI (XI (XI (XI (XO (XO (XO (XI (XO (XO (XO
-    (XO (XI (XO (XO (XO (XI XH)))))))))))))))))))))))))))))))) :: ((Zpos (XI
-    (XO (XI (XI (XI (XO (XI (XI (XO (XO (XO (XO (XI (XO (XI (XI (XO (XI (XO
-    (XO (XO (XI (XI (XI (XO (XO (XO (XO (XO (XO (XI
-    XH)))))))))))))))))))))))))))))))) :: ((Zpos (XO (XO (XI (XO (XO (XO (XO
-    (XO (XO (XI (XI (XO (XI (XI (XI (XI (XI (XO (XO (XO (XO (XI (XO (XI (XI
-    (XO (XI (XI (XO (XO (XI XH)))))))))))))))))))))))))))))))) :: ((Zpos (XI
-    (XI (XO (XO (XI (XI (XO (XI (XI (XI (XO (XI (XO (XI (XI (XI (XO (XO (XO
-    (XO (XO (XI (XI (XO (XI (XO (XO (XI (XO (XO (XI
-    XH)))))))))))))))))))))))))))))))) :: ((Zpos (XO (XI (XI (XI (XI (XI (XI
-    (XO (XI (XO (XI (XI (XO (XO (XO (XI (XO (XI (XI (XI (XI (XI (XO (XO (XI
-    (XO (XI (XI (XI (XI (XO XH)))))))))))))))))))))))))))))))) :: ((Zpos (XI
-    (XO (XO (XI (XO (XO (XI (XI (XO (XO (XO (XO (XI (XO (XO (XI (XI (XI (XI
-    (XI (XI (XI (XI (XI (XI (XO (XO (XI (XI (XI (XO
-    XH)))))))))))))))))))))))))))))))) :: ((Zpos (XO (XO (XO (XO (XI (XO (XO
-    (XO (XO (XI (XI (XO (XI (XI (XO (XI (XO (XO (XI (XI (XI (XI (XO (XI (XO
-    (XO (XI (XO (XI (XI (XO XH)))))))))))))))))))))))))))))))) :: ((Zpos (XI
-    (XI (XI (XO (XO (XI (XO (XI (XI (XI (XO (XI (XO (XI (XO (XI (XI (XO (XI
-    (XI (XI (XI (XI (XO (XO (XO (XO (XO (XI (XI (XO
-    XH)))))))))))))))))))))))))))))))) :: ((Zpos (XO (XI (XO (XO (XO (XI (XO
-    (XI (XI (XI (XO (XI (XI (XI (XI (XI (XO (XI (XO (XI (XI (XI (XO (XO (XO
-    (XI (XI (XI (XO (XI (XO XH)))))))))))))))))))))))))))))))) :: ((Zpos (XI
-    (XO (XI (XO (XI (XO (XO (XO (XO (XI (XI (XO (XO (XI (XI (XI (XI (XI (XO
-    (XI (XI (XI (XI (XI (XO (XI (XO (XI (XO (XI (XO
-    XH)))))))))))))))))))))))))))))))) :: ((Zpos (XO (XO (XI (XI (XO (XO (XI
-    (XI (XO (XO (XO (XO (XO (XO (XI (XI (XO (XO (XO (XI (XI (XI (XO (XI (XI
-    (XI (XI (XO (XO (XI (XO XH)))))))))))))))))))))))))))))))) :: ((Zpos (XI
-    (XI (XO (XI (XI (XI (XI (XO (XI (XO (XI (XI (XI (XO (XI (XI (XI (XO (XO
-    (XI (XI (XI (XI (XO (XI (XI (XO (XO (XO (XI (XO
-    XH)))))))))))))))))))))))))))))))) :: ((Zpos (XO (XI (XI (XO (XO (XO (XI
-    (XI (XO (XO (XO (XO (XO (XI (XI (XO (XO (XI (XI (XO (XI (XI (XO (XO (XI
-    (XI (XO (XI (XI (XO (XO XH)))))))))))))))))))))))))))))))) :: ((Zpos (XI
-    (XO (XO (XO (XI (XI (XI (XO (XI (XO (XI (XI (XI (XI (XI (XO (XI (XI (XI
-    (XO (XI (XI (XI (XI (XI (XI (XI (XI (XI (XO (XO
-    XH)))))))))))))))))))))))))))))))) :: ((Zpos (XO (XO (XO (XI (XO (XI (XO
-    (XI (XI (XI (XO (XI (XI (XO (XI (XO (XO (XO (XI (XO (XI (XI (XO (XI (XO
-    (XI (XO (XO (XI (XO (XO XH)))))))))))))))))))))))))))))))) :: ((Zpos (XI
-    (XI (XI (XI (XI (XO (XO (XO (XO (XI (XI (XO (XO (XO (XI (XO (XI (XO (XI
-    (XO (XI (XI (XI (XO (XO (XI (XI (XO (XI (XO (XO
-    XH)))))))))))))))))))))))))))))))) :: ((Zpos (XO (XI (XO (XI (XI (XO (XO
-    (XO (XO (XI (XI (XO (XI (XO (XO (XO (XO (XI (XO (XO (XI (XI (XO (XO (XO
-    (XO (XO (XI (XO (XO (XO XH)))))))))))))))))))))))))))))))) :: ((Zpos (XI
-    (XO (XI (XI (XO (XI (XO (XI (XI (XI (XO (XI (XO (XO (XO (XO (XI (XI (XO
-    (XO (XI (XI (XI (XI (XO (XO (XI (XI (XO (XO (XO
-    XH)))))))))))))))))))))))))))))))) :: ((Zpos (XO (XO (XI (XO (XI (XI (XI
-    (XO (XI (XO (XI (XI (XO (XI (XO (XO (XO (XO (XO (XO (XI (XI (XO (XI (XI
-    (XO (XO (XO (XO (XO (XO XH)))))))))))))))))))))))))))))))) :: ((Zpos (XI
-    (XI (XO (XO (XO (XO (XI (XI (XO (XO (XO (XO (XI (XI (XO (XO (XI (XO (XO
-    (XO (XI (XI (XI (XO (XI (XO (XI (XO (XO (XO (XO
-    XH)))))))))))))))))))))))))))))))) :: ((Zpos (XI (XO (XO (XI (XI (XO (XO
-    (XI (XO (XO (XO (XO (XI (XO (XO (XI (XO (XI (XO (XI (XO (XO (XO (XI (XI
-    (XO (XI (XI (XI (XO XH))))))))))))))))))))))))))))))) :: ((Zpos (XO (XI
-    (XI (XI (XO (XI (XO (XO (XI (XO (XI (XI (XO (XO (XO (XI (XI (XI (XO (XI
-    (XO (XO (XI (XO (XI (XO (XO (XI (XI (XO
-    XH))))))))))))))))))))))))))))))) :: ((Zpos (XI (XI (XI (XO (XI (XI (XI
-    (XI (XI (XI (XO (XI (XO (XI (XO (XI (XO (XO (XO (XI (XO (XO (XO (XO (XO
-    (XO (XI (XO (XI (XO XH))))))))))))))))))))))))))))))) :: ((Zpos (XO (XO
-    (XO (XO (XO (XO (XI (XO (XO (XI (XI (XO (XI (XI (XO (XI (XI (XO (XO (XI
-    (XO (XO (XI (XI (XO (XO (XO (XO (XI (XO
-    XH))))))))))))))))))))))))))))))) :: ((Zpos (XI (XO (XI (XO (XO (XO (XI
-    (XO (XO (XI (XI (XO (XO (XI (XI (XI (XO (XI (XI (XI (XO (XO (XO (XI (XO
-    (XI (XI (XI (XO (XO XH))))))))))))))))))))))))))))))) :: ((Zpos (XO (XI
-    (XO (XO (XI (XI (XI (XI (XI (XI (XO (XI (XI (XI (XI (XI (XI (XI (XI (XI
-    (XO (XO (XI (XO (XO (XI (XO (XI (XO (XO
-    XH))))))))))))))))))))))))))))))) :: ((Zpos (XI (XI (XO (XI (XO (XI (XO
-    (XO (XI (XO (XI (XI (XI (XO (XI (XI (XO (XO (XI (XI (XO (XO (XO (XO (XI
-    (XI (XI (XO (XO (XO XH))))))))))))))))))))))))))))))) :: ((Zpos (XO (XO
-    (XI (XI (XI (XO (XO (XI (XO (XO (XO (XO (XO (XO (XI (XI (XI (XO (XI (XI
-    (XO (XO (XI (XI (XI (XI (XO (XO (XO (XO
-    XH))))))))))))))))))))))))))))))) :: ((Zpos (XI (XO (XO (XO (XO (XI (XO
-    (XO (XI (XO (XI (XI (XI (XI (XI (XO (XO (XI (XO (XO (XO (XO (XO (XI (XI
-    (XI (XO (XI (XI (XI XH))))))))))))))))))))))))))))))) :: ((Zpos (XO (XI
-    (XI (XO (XI (XO (XO (XI (XO (XO (XO (XO (XO (XI (XI (XO (XI (XI (XO (XO
-    (XO (XO (XI (XO (XI (XI (XI (XI (XI (XI
-    XH))))))))))))))))))))))))))))))) :: ((Zpos (XI (XI (XI (XI (XO (XO (XI
-    (XO (XO (XI (XI (XO (XO (XO (XI (XO (XO (XO (XO (XO (XO (XO (XO (XO (XO
-    (XI (XO (XO (XI (XI XH))))))))))))))))))))))))))))))) :: ((Zpos (XO (XO
-    (XO (XI (XI (XI (XI (XI (XI (XI (XO (XI (XI (XO (XI (XO (XI (XO (XO (XO
-    (XO (XO (XI (XI (XO (XI (XI (XO (XI (XI
-    XH))))))))))))))))))))))))))))))) :: ((Zpos (XI (XO (XI (XI (XI (XI (XI
-    (XI (XI (XI (XO (XI (XO (XO (XO (XO (XO (XI (XI (XO (XO (XO (XO (XI (XO
-    (XO (XO (XI (XO (XI XH))))))))))))))))))))))))))))))) :: ((Zpos (XO (XI
-    (XO (XI (XO (XO (XI (XO (XO (XI (XI (XO (XI (XO (XO (XO (XI (XI (XI (XO
-    (XO (XO (XI (XO (XO (XO (XI (XI (XO (XI
-    XH))))))))))))))))))))))))))))))) :: ((Zpos (XI (XI (XO (XO (XI (XO (XO
-    (XI (XO (XO (XO (XO (XI (XI (XO (XO (XO (XO (XI (XO (XO (XO (XO (XO (XI
-    (XO (XO (XO (XO (XI XH))))))))))))))))))))))))))))))) :: ((Zpos (XO (XO
-    (XI (XO (XO (XI (XO (XO (XI (XO (XI (XI (XO (XI (XO (XO (XI (XO (XI (XO
-    (XO (XO (XI (XI (XI (XO (XI (XO (XO (XI
-    XH))))))))))))))))))))))))))))))) :: ((Zpos (XI (XO (XO (XI (XO (XI (XI
-    (XI (XI (XI (XO (XI (XO (XO (XI (XO (XI (XI (XO (XI (XI (XO (XO (XI (XI
-    (XO (XO (XO XH))))))))))))))))))))))))))))) :: ((Zpos (XO (XI (XI (XI (XI
-    (XO (XI (XO (XO (XI (XI (XO (XI (XO (XI (XO (XO (XI (XO (XI (XI (XO (XI
-    (XO (XI (XO (XI (XO XH))))))))))))))))))))))))))))) :: ((Zpos (XI (XI (XI
-    (XO (XO (XO (XO (XI (XO (XO (XO (XO (XI (XI (XI (XO (XI (XO (XO (XI (XI
-    (XO (XO (XO (XO (XO (XO (XI XH))))))))))))))))))))))))))))) :: ((Zpos (XO
-    (XO (XO (XO (XI (XI (XO (XO (XI (XO (XI (XI (XO (XI (XI (XO (XO (XO (XO
-    (XI (XI (XO (XI (XI (XO (XO (XI (XI
-    XH))))))))))))))))))))))))))))) :: ((Zpos (XI (XO (XI (XO (XI (XI (XO (XO
-    (XI (XO (XI (XI (XI (XI (XO (XO (XI (XI (XI (XI (XI (XO (XO (XI (XO
-    XH)))))))))))))))))))))))))) :: ((Zpos (XO (XI (XO (XO (XO (XO (XO (XI
-    (XO (XO (XO (XO (XO (XI (XO (XO (XO (XI (XI (XI (XI (XO (XI (XO (XO (XI
-    XH))))))))))))))))))))))))))) :: ((Zpos (XI (XI (XO (XI (XI (XO (XI (XO
-    (XO (XI (XI (XO (XO (XO (XO (XO (XI (XO (XI (XI (XI (XO (XO (XO (XI (XI
-    (XO XH)))))))))))))))))))))))))))) :: ((Zpos (XO (XO (XI (XI (XO (XI (XI
-    (XI (XI (XI (XO (XI (XI (XO (XO (XO (XO (XO (XI (XI (XI (XO (XI (XI (XI
-    (XI (XI XH)))))))))))))))))))))))))))) :: ((Zpos (XI (XO (XO (XO (XI (XO
-    (XI (XO (XO (XI (XI (XO (XO (XI (XO (XI (XI (XI (XO (XO (XI (XO (XO (XI
-    (XI (XI (XI (XO (XI XH)))))))))))))))))))))))))))))) :: ((Zpos (XO (XI
-    (XI (XO (XO (XI (XI (XI (XI (XI (XO (XI (XI (XI (XO (XI (XO (XI (XO (XO
-    (XI (XO (XI (XO (XI (XI (XO (XO (XI
-    XH)))))))))))))))))))))))))))))) :: ((Zpos (XI (XI (XI (XI (XI (XI (XO
-    (XO (XI (XO (XI (XI (XI (XO (XO (XI (XI (XO (XO (XO (XI (XO (XO (XO (XO
-    (XI (XI (XI (XI XH)))))))))))))))))))))))))))))) :: ((Zpos (XO (XO (XO
-    (XI (XO (XO (XO (XI (XO (XO (XO (XO (XO (XO (XO (XI (XO (XO (XO (XO (XI
-    (XO (XI (XI (XO (XI (XO (XI (XI
-    XH)))))))))))))))))))))))))))))) :: ((Zpos (XI (XO (XI (XI (XO (XO (XO
-    (XI (XO (XO (XO (XO (XI (XO (XI (XI (XI (XI (XI (XO (XI (XO (XO (XI (XO
-    (XO (XI (XO (XO XH)))))))))))))))))))))))))))))) :: ((Zpos (XO (XI (XO
-    (XI (XI (XI (XO (XO (XI (XO (XI (XI (XO (XO (XI (XI (XO (XI (XI (XO (XI
-    (XO (XI (XO (XO (XO (XO (XO (XO
-    XH)))))))))))))))))))))))))))))) :: ((Zpos (XI (XI (XO (XO (XO (XI (XI
-    (XI (XI (XI (XO (XI (XO (XI (XI (XI (XI (XO (XI (XO (XI (XO (XO (XO (XI
-    (XO (XI (XI (XO XH)))))))))))))))))))))))))))))) :: ((Zpos (XO (XO (XI
-    (XO (XI (XO (XI (XO (XO (XI (XI (XO (XI (XI (XI (XI (XO (XO (XI (XO (XI
-    (XO (XI (XI (XI (XO (XO (XI (XO
-    XH)))))))))))))))))))))))))))))) :: ((Zpos (XI (XO (XO (XI (XI (XI (XI
-    (XO (XO (XI (XI (XO (XO (XI (XO (XO (XI (XO (XO (XI (XO (XI (XO (XI (XI
-    (XO (XI (XO (XO (XO (XI XH)))))))))))))))))))))))))))))))) :: ((Zpos (XO
-    (XI (XI (XI (XO (XO (XI (XI (XI (XI (XO (XI (XI (XI (XO (XO (XO (XO (XO
-    (XI (XO (XI (XI (XO (XI (XO (XO (XO (XO (XO (XI
-    XH)))))))))))))))))))))))))))))))) :: ((Zpos (XI (XI (XI (XO (XI (XO (XO
-    (XO (XI (XO (XI (XI (XI (XO (XO (XO (XI (XI (XO (XI (XO (XI (XO (XO (XO
-    (XO (XI (XI (XO (XO (XI XH)))))))))))))))))))))))))))))))) :: ((Zpos (XO
-    (XO (XO (XO (XO (XI (XO (XI (XO (XO (XO (XO (XO (XO (XO (XO (XO (XI (XO
-    (XI (XO (XI (XI (XI (XO (XO (XO (XI (XO (XO (XI
-    XH)))))))))))))))))))))))))))))))) :: ((Zpos (XI (XO (XI (XO (XO (XI (XO
-    (XI (XO (XO (XO (XO (XI (XO (XI (XO (XI (XO (XI (XI (XO (XI (XO (XI (XO
-    (XI (XI (XO (XI (XO (XI XH)))))))))))))))))))))))))))))))) :: ((Zpos (XO
-    (XI (XO (XO (XI (XO (XO (XO (XI (XO (XI (XI (XO (XO (XI (XO (XO (XO (XI
-    (XI (XO (XI (XI (XO (XO (XI (XO (XO (XI (XO (XI
-    XH)))))))))))))))))))))))))))))))) :: ((Zpos (XI (XI (XO (XI (XO (XO (XI
-    (XI (XI (XI (XO (XI (XO (XI (XI (XO (XI (XI (XI (XI (XO (XI (XO (XO (XI
-    (XI (XI (XI (XI (XO (XI XH)))))))))))))))))))))))))))))))) :: ((Zpos (XO
-    (XO (XI (XI (XI (XI (XI (XO (XO (XI (XI (XO (XI (XI (XI (XO (XO (XI (XI
-    (XI (XO (XI (XI (XI (XI (XI (XO (XI (XI (XO (XI
-    XH)))))))))))))))))))))))))))))))) :: ((Zpos (XI (XO (XO (XO (XO (XO (XI
-    (XI (XI (XI (XO (XI (XO (XO (XI (XI (XI (XO (XO (XO (XO (XI (XO (XI (XI
-    (XI (XO (XO (XO (XI (XI XH)))))))))))))))))))))))))))))))) :: ((Zpos (XO
-    (XI (XI (XO (XI (XI (XI (XO (XO (XI (XI (XO (XI (XO (XI (XI (XO (XO (XO
-    (XO (XO (XI (XI (XO (XI (XI (XI (XO (XO (XI (XI
-    XH)))))))))))))))))))))))))))))))) :: ((Zpos (XI (XI (XI (XI (XO (XI (XO
-    (XI (XO (XO (XO (XO (XI (XI (XI (XI (XI (XI (XO (XO (XO (XI (XO (XO (XO
-    (XI (XO (XI (XO (XI (XI XH)))))))))))))))))))))))))))))))) :: ((Zpos (XO
-    (XO (XO (XI (XI (XO (XO (XO (XI (XO (XI (XI (XO (XI (XI (XI (XO (XI (XO
-    (XO (XO (XI (XI (XI (XO (XI (XI (XI (XO (XI (XI
-    XH)))))))))))))))))))))))))))))))) :: ((Zpos (XI (XO (XI (XI (XI (XO (XO
-    (XO (XI (XO (XI (XI (XI (XI (XO (XI (XI (XO (XI (XO (XO (XI (XO (XI (XO
-    (XO (XO (XO (XI (XI (XI XH)))))))))))))))))))))))))))))))) :: ((Zpos (XO
-    (XI (XO (XI (XO (XI (XO (XI (XO (XO (XO (XO (XO (XI (XO (XI (XO (XO (XI
-    (XO (XO (XI (XI (XO (XO (XO (XI (XO (XI (XI (XI
-    XH)))))))))))))))))))))))))))))))) :: ((Zpos (XI (XI (XO (XO (XI (XI (XI
-    (XO (XO (XI (XI (XO (XO (XO (XO (XI (XI (XI (XI (XO (XO (XI (XO (XO (XI
-    (XO (XO (XI (XI (XI (XI XH)))))))))))))))))))))))))))))))) :: ((Zpos (XO
-    (XO (XI (XO (XO (XO (XI (XI (XI (XI (XO (XI (XI (XO (XO (XI (XO (XI (XI
-    (XO (XO (XI (XI (XI (XI (XO (XI (XI (XI (XI (XI
-    XH)))))))))))))))))))))))))))))))) :: ((Zpos (XI (XO (XO (XI (XO (XO (XO
-    (XO (XI (XO (XI (XI (XI (XI (XI (XI (XO (XO (XO (XI (XI (XI (XO (XI (XI
-    (XO (XO (XI (XO (XO (XO XH)))))))))))))))))))))))))))))))) :: ((Zpos (XO
-    (XI (XI (XI (XI (XI (XO (XI (XO (XO (XO (XO (XO (XI (XI (XI (XI (XO (XO
-    (XI (XI (XI (XI (XO (XI (XO (XI (XI (XO (XO (XO
-    XH)))))))))))))))))))))))))))))))) :: ((Zpos (XI (XI (XI (XO (XO (XI (XI
-    (XO (XO (XI (XI (XO (XO (XO (XI (XI (XO (XI (XO (XI (XI (XI (XO (XO (XO
-    (XO (XO (XO (XO (XO (XO XH)))))))))))))))))))))))))))))))) :: ((Zpos (XO
-    (XO (XO (XO (XI (XO (XI (XI (XI (XI (XO (XI (XI (XO (XI (XI (XI (XI (XO
-    (XI (XI (XI (XI (XI (XO (XO (XI (XO (XO (XO (XO
-    XH)))))))))))))))))))))))))))))))) :: ((Zpos (XI (XO (XI (XO (XI (XO (XI
-    (XI (XI (XI (XO (XI (XO (XO (XO (XI (XO (XO (XI (XI (XI (XI (XO (XI (XO
-    (XI (XO (XI (XI (XO (XO XH)))))))))))))))))))))))))))))))) :: ((Zpos (XO
-    (XI (XO (XO (XO (XI (XI (XO (XO (XI (XI (XO (XI (XO (XO (XI (XI (XO (XI
-    (XI (XI (XI (XI (XO (XO (XI (XI (XI (XI (XO (XO
-    XH)))))))))))))))))))))))))))))))) :: ((Zpos (XI (XI (XO (XI (XI (XI (XO
-    (XI (XO (XO (XO (XO (XI (XI (XO (XI (XO (XI (XI (XI (XI (XI (XO (XO (XI
-    (XI (XO (XO (XI (XO (XO XH)))))))))))))))))))))))))))))))) :: ((Zpos (XO
-    (XO (XI (XI (XO (XO (XO (XO (XI (XO (XI (XI (XO (XI (XO (XI (XI (XI (XI
-    (XI (XI (XI (XI (XI (XI (XI (XI (XO (XI (XO (XO
-    XH)))))))))))))))))))))))))))))))) :: ((Zpos (XI (XO (XO (XO (XI (XI (XO
-    (XI (XO (XO (XO (XO (XI (XO (XO (XO (XO (XO (XO (XO (XI (XI (XO (XI (XI
-    (XI (XI (XI (XO (XI (XO XH)))))))))))))))))))))))))))))))) :: ((Zpos (XO
-    (XI (XI (XO (XO (XO (XO (XO (XI (XO (XI (XI (XO (XO (XO (XO (XI (XO (XO
-    (XO (XI (XI (XI (XO (XI (XI (XO (XI (XO (XI (XO
-    XH)))))))))))))))))))))))))))))))) :: ((Zpos (XI (XI (XI (XI (XI (XO (XI
-    (XI (XI (XI (XO (XI (XO (XI (XO (XO (XO (XI (XO (XO (XI (XI (XO (XO (XO
-    (XI (XI (XO (XO (XI (XO XH)))))))))))))))))))))))))))))))) :: ((Zpos (XO
-    (XO (XO (XI (XO (XI (XI (XO (XO (XI (XI (XO (XI (XI (XO (XO (XI (XI (XO
-    (XO (XI (XI (XI (XI (XO (XI (XO (XO (XO (XI (XO
-    XH)))))))))))))))))))))))))))))))) :: ((Zpos (XI (XO (XI (XI (XO (XI (XI
-    (XO (XO (XI (XI (XO (XO (XI (XI (XO (XO (XO (XI (XO (XI (XI (XO (XI (XO
-    (XO (XI (XI (XI (XI (XO XH)))))))))))))))))))))))))))))))) :: ((Zpos (XO
-    (XI (XO (XI (XI (XO (XI (XI (XI (XI (XO (XI (XI (XI (XI (XO (XI (XO (XI
-    (XO (XI (XI (XI (XO (XO (XO (XO (XI (XI (XI (XO
-    XH)))))))))))))))))))))))))))))))) :: ((Zpos (XI (XI (XO (XO (XO (XO (XO
-    (XO (XI (XO (XI (XI (XI (XO (XI (XO (XO (XI (XI (XO (XI (XI (XO (XO (XI
-    (XO (XI (XO (XI (XI (XO XH)))))))))))))))))))))))))))))))) :: ((Zpos (XO
-    (XO (XI (XO (XI (XI (XO (XI (XO (XO (XO (XO (XO (XO (XI (XO (XI (XI (XI
-    (XO (XI (XI (XI (XI (XI (XO (XO (XO (XI (XI (XO
-    XH)))))))))))))))))))))))))))))))) :: [])))))))))))))))))))))))))))))))))))))))))))))))))))))))))))))))))))))))))))))))))))))))))))))))))))))))))))))))))))))))))))))))))))))))))))))))))))))))))))))))))))))))))))))))))))))))))))))))))))))))))))))))))))))))))))))))))))))))))))))))))))))))))))))))
-
-(** val wAL_PAGE_SIZE : z **)
-
-let wAL_PAGE_SIZE =
-  Zpos (XO (XO (XO (XO (XO (XO (XO (XO (XO (XO (XO (XO XH))))))))))))
-
-(** val bKP_WAL_CLEANUP : z **)
-
-let bKP_WAL_CLEANUP =
-  Zpos (XO XH)
-
-(** val bKP_MAIN_COPY : z **)
-
-let bKP_MAIN_COPY =
+let jbinn_MIN_BINN_SIZE =
   Zpos (XI XH)
 
-(** val wAL_SCAN_SP_CHECKS_AVAIL : z **)
+(** val jbinn_MAX_BIN_KEY_LEN : z **)
 
-let wAL_SCAN_SP_CHECKS_AVAIL =
+let jbinn_MAX_BIN_KEY_LEN =
+  Zpos (XI (XI (XI (XI (XI (XI (XI XH)))))))
+
+(** val jbinn_JBL_MAX_NESTING_LEVEL : z **)
+
+let jbinn_JBL_MAX_NESTING_LEVEL =
+  Zpos (XI (XI (XI (XO (XO (XI (XI (XI (XI XH)))))))))
+
+(** val jbinn_sizeof_int : z **)
+
+let jbinn_sizeof_int =
+  Zpos (XO (XO XH))
+
+(** val jbinn_UINT8_MAX : z **)
+
+let jbinn_UINT8_MAX =
+  Zpos (XI (XI (XI (XI (XI (XI (XI XH)))))))
+
+(** val jbinn_UINT16_MAX : z **)
+
+let jbinn_UINT16_MAX =
+  Zpos (XI (XI (XI (XI (XI (XI (XI (XI (XI (XI (XI (XI (XI (XI (XI
+    XH)))))))))))))))
+
+(** val jbinn_UINT32_MAX : z **)
+
+let jbinn_UINT32_MAX =
+  Zpos (XI (XI (XI (XI (XI (XI (XI (XI (XI (XI (XI (XI (XI (XI (XI (XI (XI
+    (XI (XI (XI (XI (XI (XI (XI (XI (XI (XI (XI (XI (XI (XI
+    XH)))))))))))))))))))))))))))))))
+
+(** val jbinn_INT8_MIN : z **)
+
+let jbinn_INT8_MIN =
+  Zneg (XO (XO (XO (XO (XO (XO (XO XH)))))))
+
+(** val jbinn_INT16_MIN : z **)
+
+let jbinn_INT16_MIN =
+  Zneg (XO (XO (XO (XO (XO (XO (XO (XO (XO (XO (XO (XO (XO (XO (XO
+    XH)))))))))))))))
+
+(** val jbinn_INT32_MIN : z **)
+
+let jbinn_INT32_MIN =
+  Zneg (XO (XO (XO (XO (XO (XO (XO (XO (XO (XO (XO (XO (XO (XO (XO (XO (XO
+    (XO (XO (XO (XO (XO (XO (XO (XO (XO (XO (XO (XO (XO (XO
+    XH)))))))))))))))))))))))))))))))
+
+(** val jbinn_STRING_KEEPS_NUL : z **)
+
+let jbinn_STRING_KEEPS_NUL =
   Zpos XH
 
-(** val iW_ROUNDUP : z -> z -> z **)
+(** val be_bytes : nat -> z -> z list **)
 
-let iW_ROUNDUP x v =
-  Z.coq_land
-    (uw (Zpos (XO (XO (XO (XO (XO (XO XH)))))))
-      (Z.sub (uw (Zpos (XO (XO (XO (XO (XO (XO XH))))))) (Z.add x v))
-        (uw (Zpos (XO (XO (XO (XO (XO (XO XH))))))) (Zpos XH))))
-    (uw (Zpos (XO (XO (XO (XO (XO (XO XH)))))))
-      (Z.lnot
-        (uw (Zpos (XO (XO (XO (XO (XO (XO XH)))))))
-          (Z.sub v (uw (Zpos (XO (XO (XO (XO (XO (XO XH))))))) (Zpos XH))))))
-
-type bytes = z list
-
-(** val le_enc : nat -> z -> bytes **)
-
-let rec le_enc n0 v =
+let rec be_bytes n0 v =
   match n0 with
   | O -> []
   | S k ->
-    (Z.modulo v (Zpos (XO (XO (XO (XO (XO (XO (XO (XO XH)))))))))) :: 
-      (le_enc k (Z.div v (Zpos (XO (XO (XO (XO (XO (XO (XO (XO XH)))))))))))
+    (Z.modulo
+      (Z.div v
+        (Z.pow (Zpos (XO XH)) (Z.mul (Zpos (XO (XO (XO XH)))) (Z.of_nat k))))
+      (Zpos (XO (XO (XO (XO (XO (XO (XO (XO XH)))))))))) :: (be_bytes k v)
 
-(** val le_dec : bytes -> z **)
+(** val be_val : nat -> z list -> z option **)
 
-let rec le_dec = function
-| [] -> Z0
-| b :: r ->
-  Z.add b (Z.mul (Zpos (XO (XO (XO (XO (XO (XO (XO (XO XH))))))))) (le_dec r))
+let rec be_val n0 bs =
+  match n0 with
+  | O -> Some Z0
+  | S k ->
+    (match bs with
+     | [] -> None
+     | b :: r ->
+       (match be_val k r with
+        | Some v ->
+          Some
+            (Z.add
+              (Z.mul b
+                (Z.pow (Zpos (XO XH))
+                  (Z.mul (Zpos (XO (XO (XO XH)))) (Z.of_nat k)))) v)
+        | None -> None))
 
-(** val rd : nat -> z -> bytes -> z **)
+(** val cstr : z list -> z list **)
 
-let rd n0 off l =
-  le_dec (firstn n0 (skipn (Z.to_nat off) l))
+let rec cstr = function
+| [] -> []
+| c :: r -> if Z.eqb c Z0 then [] else c :: (cstr r)
 
-(** val rd_off : z -> bytes -> z **)
+(** val zlen : 'a1 list -> z **)
 
-let rd_off off l =
-  sw (Zpos (XO (XO (XO (XO (XO (XO XH)))))))
-    (rd (S (S (S (S (S (S (S (S O)))))))) off l)
+let zlen l =
+  Z.of_nat (length l)
 
-type rec0 =
-| RSep of z * z
-| RSet of z * z * z
-| RCopy of z * z * z
-| RWrite of z * z * bytes
-| RResize of z * z
-| RSavepoint of z
-| RReset
+(** val zskip : z -> 'a1 list -> 'a1 list **)
 
-(** val hdr : z -> bytes **)
+let zskip n0 l =
+  skipn (Z.to_nat n0) l
 
-let hdr id =
-  id :: (Z0 :: (Z0 :: (Z0 :: [])))
+(** val zfirst : z -> 'a1 list -> 'a1 list **)
 
-(** val enc_rec : rec0 -> bytes **)
+let zfirst n0 l =
+  firstn (Z.to_nat n0) l
 
-let enc_rec = function
-| RSep (crc, len) ->
-  app (hdr wOP_SEP)
-    (app (le_enc (S (S (S (S O)))) crc) (le_enc (S (S (S (S O)))) len))
-| RSet (val0, off, len) ->
-  app (hdr wOP_SET)
-    (app (le_enc (S (S (S (S O)))) val0)
-      (app (le_enc (S (S (S (S (S (S (S (S O)))))))) off)
-        (le_enc (S (S (S (S (S (S (S (S O)))))))) len)))
-| RCopy (off, len, noff) ->
-  app (hdr wOP_COPY)
-    (app (le_enc (S (S (S (S (S (S (S (S O)))))))) off)
-      (app (le_enc (S (S (S (S (S (S (S (S O)))))))) len)
-        (le_enc (S (S (S (S (S (S (S (S O)))))))) noff)))
-| RWrite (crc, off, payload) ->
-  app (hdr wOP_WRITE)
-    (app (le_enc (S (S (S (S O)))) crc)
-      (app (le_enc (S (S (S (S O)))) (Z.of_nat (length payload)))
-        (app (le_enc (S (S (S (S (S (S (S (S O)))))))) off) payload)))
-| RResize (osize, nsize) ->
-  app (hdr wOP_RESIZE)
-    (app (le_enc (S (S (S (S (S (S (S (S O)))))))) osize)
-      (le_enc (S (S (S (S (S (S (S (S O)))))))) nsize))
-| RSavepoint ts ->
-  app (hdr wOP_SAVEPOINT) (le_enc (S (S (S (S (S (S (S (S O)))))))) ts)
-| RReset -> hdr wOP_RESET
+(** val tolower : z -> z **)
 
-(** val encode : rec0 list -> bytes **)
+let tolower c =
+  if (&&) (Z.leb (Zpos (XI (XO (XO (XO (XO (XO XH))))))) c)
+       (Z.leb c (Zpos (XO (XI (XO (XI (XI (XO XH))))))))
+  then Z.add c (Zpos (XO (XO (XO (XO (XO XH))))))
+  else c
 
-let encode rs =
-  flat_map enc_rec rs
+(** val strnieq : z list -> z list -> nat -> bool **)
 
-(** val rec_size : rec0 -> z **)
+let rec strnieq a b = function
+| O -> true
+| S k ->
+  (match a with
+   | [] -> false
+   | x :: a' ->
+     (match b with
+      | [] -> false
+      | y :: b' ->
+        if Z.eqb (tolower x) (tolower y)
+        then if Z.eqb x Z0 then true else strnieq a' b' k
+        else false))
 
-let rec_size = function
-| RSep (_, _) -> sizeof_WBSEP
-| RSet (_, _, _) -> sizeof_WBSET
-| RCopy (_, _, _) -> sizeof_WBCOPY
-| RWrite (_, _, p) -> Z.add sizeof_WBWRITE (Z.of_nat (length p))
-| RResize (_, _) -> sizeof_WBRESIZE
-| RSavepoint _ -> sizeof_WBSAVEPOINT
-| RReset -> sizeof_WBRESET
+(** val rd_field : z list -> (z * z) option **)
 
-(** val layout_ok : bool **)
+let rd_field p = match p with
+| [] -> None
+| b :: _ ->
+  if negb
+       (Z.eqb (Z.coq_land b (Zpos (XO (XO (XO (XO (XO (XO (XO XH))))))))) Z0)
+  then (match be_val (S (S (S (S O)))) p with
+        | Some v ->
+          Some
+            ((Z.coq_land v (Zpos (XI (XI (XI (XI (XI (XI (XI (XI (XI (XI (XI
+               (XI (XI (XI (XI (XI (XI (XI (XI (XI (XI (XI (XI (XI (XI (XI
+               (XI (XI (XI (XI XH)))))))))))))))))))))))))))))))), (Zpos (XO
+            (XO XH))))
+        | None -> None)
+  else Some (b, (Zpos XH))
 
-let layout_ok =
-  (&&)
-    ((&&)
-      ((&&)
-        ((&&)
-          ((&&)
-            ((&&)
-              ((&&)
-                ((&&)
-                  ((&&)
-                    ((&&)
-                      ((&&)
-                        ((&&)
-                          ((&&)
-                            ((&&)
-                              ((&&)
-                                ((&&)
-                                  ((&&)
-                                    ((&&)
-                                      ((&&)
-                                        ((&&)
-                                          ((&&)
-                                            ((&&)
-                                              ((&&)
-                                                ((&&)
-                                                  ((&&)
-                                                    ((&&)
-                                                      ((&&)
-                                                        (Z.eqb sizeof_WBSEP
-                                                          (Zpos (XO (XO (XI
-                                                          XH)))))
-                                                        (Z.eqb
-                                                          offsetof_WBSEP_crc
-                                                          (Zpos (XO (XO XH)))))
-                                                      (Z.eqb
-                                                        offsetof_WBSEP_len
-                                                        (Zpos (XO (XO (XO
-                                                        XH))))))
-                                                    (Z.eqb sizeof_WBRESET
-                                                      (Zpos (XO (XO XH)))))
-                                                  (Z.eqb sizeof_WBSET (Zpos
-                                                    (XO (XO (XO (XI XH)))))))
-                                                (Z.eqb offsetof_WBSET_val
-                                                  (Zpos (XO (XO XH)))))
-                                              (Z.eqb offsetof_WBSET_off (Zpos
-                                                (XO (XO (XO XH))))))
-                                            (Z.eqb offsetof_WBSET_len (Zpos
-                                              (XO (XO (XO (XO XH)))))))
-                                          (Z.eqb sizeof_WBCOPY (Zpos (XO (XO
-                                            (XI (XI XH)))))))
-                                        (Z.eqb offsetof_WBCOPY_off (Zpos (XO
-                                          (XO XH)))))
-                                      (Z.eqb offsetof_WBCOPY_len (Zpos (XO
-                                        (XO (XI XH))))))
-                                    (Z.eqb offsetof_WBCOPY_noff (Zpos (XO (XO
-                                      (XI (XO XH)))))))
-                                  (Z.eqb sizeof_WBWRITE (Zpos (XO (XO (XI (XO
-                                    XH)))))))
-                                (Z.eqb offsetof_WBWRITE_crc (Zpos (XO (XO
-                                  XH)))))
-                              (Z.eqb offsetof_WBWRITE_len (Zpos (XO (XO (XO
-                                XH))))))
-                            (Z.eqb offsetof_WBWRITE_off (Zpos (XO (XO (XI
-                              XH))))))
-                          (Z.eqb sizeof_WBRESIZE (Zpos (XO (XO (XI (XO
-                            XH)))))))
-                        (Z.eqb offsetof_WBRESIZE_osize (Zpos (XO (XO XH)))))
-                      (Z.eqb offsetof_WBRESIZE_nsize (Zpos (XO (XO (XI XH))))))
-                    (Z.eqb sizeof_WBSAVEPOINT (Zpos (XO (XO (XI XH))))))
-                  (Z.eqb offsetof_WBSAVEPOINT_ts (Zpos (XO (XO XH)))))
-                (Z.eqb wOP_SET (Zpos XH))) (Z.eqb wOP_COPY (Zpos (XO XH))))
-            (Z.eqb wOP_WRITE (Zpos (XI XH))))
-          (Z.eqb wOP_RESIZE (Zpos (XO (XO XH)))))
-        (Z.eqb wOP_SAVEPOINT (Zpos (XI (XO XH)))))
-      (Z.eqb wOP_RESET (Zpos (XO (XI XH)))))
-    (Z.eqb wOP_SEP (Zpos (XI (XI (XI (XI (XI (XI XH))))))))
+(** val read_hdr : z list -> (((z * z) * z) * z) option **)
 
-(** val crc32_step : z -> z -> z **)
+let read_hdr = function
+| [] -> None
+| byte :: p1 ->
+  if negb (Z.eqb (Z.coq_land byte jbinn_STORAGE_MASK) jbinn_STORAGE_CONTAINER)
+  then None
+  else if negb (Z.eqb (Z.coq_land byte jbinn_STORAGE_HAS_MORE) Z0)
+       then None
+       else if negb
+                 ((||)
+                   ((||) (Z.eqb byte jbinn_BINN_LIST)
+                     (Z.eqb byte jbinn_BINN_MAP))
+                   (Z.eqb byte jbinn_BINN_OBJECT))
+            then None
+            else (match rd_field p1 with
+                  | Some p0 ->
+                    let (size, k1) = p0 in
+                    (match rd_field (zskip k1 p1) with
+                     | Some p2 ->
+                       let (count, k2) = p2 in
+                       if Z.ltb size jbinn_MIN_BINN_SIZE
+                       then None
+                       else Some (((byte, size), count),
+                              (Z.add (Z.add (Zpos XH) k1) k2))
+                     | None -> None)
+                  | None -> None)
 
-let crc32_step crc b =
-  Z.coq_lxor
-    (Z.coq_land (Z.shiftl crc (Zpos (XO (XO (XO XH))))) (Zpos (XI (XI (XI (XI
-      (XI (XI (XI (XI (XI (XI (XI (XI (XI (XI (XI (XI (XI (XI (XI (XI (XI (XI
-      (XI (XI (XI (XI (XI (XI (XI (XI (XI XH)))))))))))))))))))))))))))))))))
-    (nth
-      (Z.to_nat
-        (Z.coq_land
-          (Z.coq_lxor (Z.shiftr crc (Zpos (XO (XO (XO (XI XH)))))) b) (Zpos
-          (XI (XI (XI (XI (XI (XI (XI XH)))))))))) iwu_crc32_table Z0)
+(** val advance : z list -> z -> (z list * z) option **)
 
-(** val crc32 : bytes -> z -> z **)
+let advance p rem =
+  if Z.leb rem Z0
+  then None
+  else (match p with
+        | [] -> None
+        | byte :: p1 ->
+          let st = Z.coq_land byte jbinn_STORAGE_MASK in
+          let p2 =
+            if negb (Z.eqb (Z.coq_land byte jbinn_STORAGE_HAS_MORE) Z0)
+            then zskip (Zpos XH) p1
+            else p1
+          in
+          let r2 =
+            if negb (Z.eqb (Z.coq_land byte jbinn_STORAGE_HAS_MORE) Z0)
+            then Z.sub rem (Zpos (XO XH))
+            else Z.sub rem (Zpos XH)
+          in
+          let fin = fun k ->
+            if Z.leb (Z.sub r2 k) Z0
+            then None
+            else Some ((zskip k p2), (Z.sub r2 k))
+          in
+          if Z.eqb st jbinn_STORAGE_NOBYTES
+          then fin Z0
+          else if Z.eqb st jbinn_STORAGE_BYTE
+               then fin (Zpos XH)
+               else if Z.eqb st jbinn_STORAGE_WORD
+                    then fin (Zpos (XO XH))
+                    else if Z.eqb st jbinn_STORAGE_DWORD
+                         then fin (Zpos (XO (XO XH)))
+                         else if Z.eqb st jbinn_STORAGE_QWORD
+                              then fin (Zpos (XO (XO (XO XH))))
+                              else if Z.eqb st jbinn_STORAGE_BLOB
+                                   then if Z.leb
+                                             (Z.sub r2
+                                               (Z.sub jbinn_sizeof_int (Zpos
+                                                 XH))) Z0
+                                        then None
+                                        else (match be_val (S (S (S (S O))))
+                                                      p2 with
+                                              | Some dsize ->
+                                                fin
+                                                  (Z.add (Zpos (XO (XO XH)))
+                                                    dsize)
+                                              | None -> None)
+                                   else if Z.eqb st jbinn_STORAGE_CONTAINER
+                                        then if Z.leb r2 Z0
+                                             then None
+                                             else (match p2 with
+                                                   | [] -> None
+                                                   | d :: _ ->
+                                                     if negb
+                                                          (Z.eqb
+                                                            (Z.coq_land d
+                                                              (Zpos (XO (XO
+                                                              (XO (XO (XO (XO
+                                                              (XO XH)))))))))
+                                                            Z0)
+                                                     then if Z.leb
+                                                               (Z.sub r2
+                                                                 (Z.sub
+                                                                   jbinn_sizeof_int
+                                                                   (Zpos XH)))
+                                                               Z0
+                                                          then None
+                                                          else (match 
+                                                                be_val (S (S
+                                                                  (S (S O))))
+                                                                  p2 with
+                                                                | Some v ->
+                                                                  fin
+                                                                    (Z.sub
+                                                                    (Z.coq_land
+                                                                    v (Zpos
+                                                                    (XI (XI
+                                                                    (XI (XI
+                                                                    (XI (XI
+                                                                    (XI (XI
+                                                                    (XI (XI
+                                                                    (XI (XI
+                                                                    (XI (XI
+                                                                    (XI (XI
+                                                                    (XI (XI
+                                                                    (XI (XI
+                                                                    (XI (XI
+                                                                    (XI (XI
+                                                                    (XI (XI
+                                                                    (XI (XI
+                                                                    (XI (XI
+                                                                    XH))))))))))))))))))))))))))))))))
+                                                                    (Zpos XH))
+                                                                | None -> None)
+                                                     else fin
+                                                            (Z.sub d (Zpos
+                                                              XH)))
+                                        else if Z.eqb st jbinn_STORAGE_STRING
+                                             then if Z.leb r2 Z0
+                                                  then None
+                                                  else (match p2 with
+                                                        | [] -> None
+                                                        | d :: _ ->
+                                                          if negb
+                                                               (Z.eqb
+                                                                 (Z.coq_land
+                                                                   d (Zpos
+                                                                   (XO (XO
+                                                                   (XO (XO
+                                                                   (XO (XO
+                                                                   (XO
+                                                                   XH)))))))))
+                                                                 Z0)
+                                                          then if Z.leb
+                                                                    (Z.sub r2
+                                                                    (Z.sub
+                                                                    jbinn_sizeof_int
+                                                                    (Zpos XH)))
+                                                                    Z0
+                                                               then None
+                                                               else (match 
+                                                                    be_val (S
+                                                                    (S (S (S
+                                                                    O)))) p2 with
+                                                                    | Some v ->
+                                                                    fin
+                                                                    (Z.add
+                                                                    (Z.add
+                                                                    (Zpos (XO
+                                                                    (XO XH)))
+                                                                    (Z.coq_land
+                                                                    v (Zpos
+                                                                    (XI (XI
+                                                                    (XI (XI
+                                                                    (XI (XI
+                                                                    (XI (XI
+                                                                    (XI (XI
+                                                                    (XI (XI
+                                                                    (XI (XI
+                                                                    (XI (XI
+                                                                    (XI (XI
+                                                                    (XI (XI
+                                                                    (XI (XI
+                                                                    (XI (XI
+                                                                    (XI (XI
+                                                                    (XI (XI
+                                                                    (XI (XI
+                                                                    XH)))))))))))))))))))))))))))))))))
+                                                                    (Zpos XH))
+                                                                    | None ->
+                                                                    None)
+                                                          else fin
+                                                                 (Z.add
+                                                                   (Z.add
+                                                                    (Zpos XH)
+                                                                    d) (Zpos
+                                                                   XH)))
+                                             else None)
 
-let crc32 buf init =
-  fold_left crc32_step buf init
+type bval = { bt : z; bnum : z; bsize : z; bcount : z; bptr : z list }
 
-type sstep =
-| SStop
-| SNext of z * z * z
+(** val get_value : z list -> bval option **)
 
-(** val scan_step : bool -> bool -> z -> z -> bytes -> z -> z -> sstep **)
+let get_value p = match p with
+| [] -> None
+| byte :: p1 ->
+  let st = Z.coq_land byte jbinn_STORAGE_MASK in
+  let more = negb (Z.eqb (Z.coq_land byte jbinn_STORAGE_HAS_MORE) Z0) in
+  if more
+  then (match p1 with
+        | [] -> None
+        | b2 :: p1' ->
+          let p0 =
+            ((Z.add
+               (Z.mul byte (Zpos (XO (XO (XO (XO (XO (XO (XO (XO XH))))))))))
+               b2), p1')
+          in
+          let (ty, q) = p0 in
+          let conv = fun b ->
+            if Z.eqb b.bt jbinn_BINN_TRUE
+            then Some { bt = jbinn_BINN_BOOL; bnum = (Zpos XH); bsize =
+                   b.bsize; bcount = b.bcount; bptr = [] }
+            else if Z.eqb b.bt jbinn_BINN_FALSE
+                 then Some { bt = jbinn_BINN_BOOL; bnum = Z0; bsize =
+                        b.bsize; bcount = b.bcount; bptr = [] }
+                 else Some b
+          in
+          let num = fun k ->
+            match be_val k q with
+            | Some v ->
+              conv { bt = ty; bnum = v; bsize = Z0; bcount = Z0; bptr = [] }
+            | None -> None
+          in
+          if Z.eqb st jbinn_STORAGE_NOBYTES
+          then conv { bt = ty; bnum = Z0; bsize = Z0; bcount = Z0; bptr = [] }
+          else if Z.eqb st jbinn_STORAGE_BYTE
+               then num (S O)
+               else if Z.eqb st jbinn_STORAGE_WORD
+                    then num (S (S O))
+                    else if Z.eqb st jbinn_STORAGE_DWORD
+                         then num (S (S (S (S O))))
+                         else if Z.eqb st jbinn_STORAGE_QWORD
+                              then num (S (S (S (S (S (S (S (S O))))))))
+                              else if Z.eqb st jbinn_STORAGE_BLOB
+                                   then (match be_val (S (S (S (S O)))) q with
+                                         | Some v ->
+                                           conv { bt = ty; bnum = Z0; bsize =
+                                             v; bcount = Z0; bptr =
+                                             (zskip (Zpos (XO (XO XH))) q) }
+                                         | None -> None)
+                                   else if Z.eqb st jbinn_STORAGE_CONTAINER
+                                        then (match read_hdr p with
+                                              | Some p2 ->
+                                                let (p3, _) = p2 in
+                                                let (p4, count) = p3 in
+                                                let (_, size) = p4 in
+                                                conv { bt = ty; bnum = Z0;
+                                                  bsize = size; bcount =
+                                                  count; bptr = p }
+                                              | None -> None)
+                                        else if Z.eqb st jbinn_STORAGE_STRING
+                                             then (match rd_field q with
+                                                   | Some p2 ->
+                                                     let (dsz, k) = p2 in
+                                                     conv { bt = ty; bnum =
+                                                       Z0; bsize = dsz;
+                                                       bcount = Z0; bptr =
+                                                       (zskip k q) }
+                                                   | None -> None)
+                                             else None)
+  else let p0 = (byte, p1) in
+       let (ty, q) = p0 in
+       let conv = fun b ->
+         if Z.eqb b.bt jbinn_BINN_TRUE
+         then Some { bt = jbinn_BINN_BOOL; bnum = (Zpos XH); bsize = b.bsize;
+                bcount = b.bcount; bptr = [] }
+         else if Z.eqb b.bt jbinn_BINN_FALSE
+              then Some { bt = jbinn_BINN_BOOL; bnum = Z0; bsize = b.bsize;
+                     bcount = b.bcount; bptr = [] }
+              else Some b
+       in
+       let num = fun k ->
+         match be_val k q with
+         | Some v ->
+           conv { bt = ty; bnum = v; bsize = Z0; bcount = Z0; bptr = [] }
+         | None -> None
+       in
+       if Z.eqb st jbinn_STORAGE_NOBYTES
+       then conv { bt = ty; bnum = Z0; bsize = Z0; bcount = Z0; bptr = [] }
+       else if Z.eqb st jbinn_STORAGE_BYTE
+            then num (S O)
+            else if Z.eqb st jbinn_STORAGE_WORD
+                 then num (S (S O))
+                 else if Z.eqb st jbinn_STORAGE_DWORD
+                      then num (S (S (S (S O))))
+                      else if Z.eqb st jbinn_STORAGE_QWORD
+                           then num (S (S (S (S (S (S (S (S O))))))))
+                           else if Z.eqb st jbinn_STORAGE_BLOB
+                                then (match be_val (S (S (S (S O)))) q with
+                                      | Some v ->
+                                        conv { bt = ty; bnum = Z0; bsize = v;
+                                          bcount = Z0; bptr =
+                                          (zskip (Zpos (XO (XO XH))) q) }
+                                      | None -> None)
+                                else if Z.eqb st jbinn_STORAGE_CONTAINER
+                                     then (match read_hdr p with
+                                           | Some p2 ->
+                                             let (p3, _) = p2 in
+                                             let (p4, count) = p3 in
+                                             let (_, size) = p4 in
+                                             conv { bt = ty; bnum = Z0;
+                                               bsize = size; bcount = count;
+                                               bptr = p }
+                                           | None -> None)
+                                     else if Z.eqb st jbinn_STORAGE_STRING
+                                          then (match rd_field q with
+                                                | Some p2 ->
+                                                  let (dsz, k) = p2 in
+                                                  conv { bt = ty; bnum = Z0;
+                                                    bsize = dsz; bcount = Z0;
+                                                    bptr = (zskip k q) }
+                                                | None -> None)
+                                          else None
 
-let scan_step spchk first avail pos l fpos rpos =
-  let opid = nth O l Z0 in
-  if (&&) first (negb (Z.eqb opid wOP_SEP))
-  then SStop
-  else if Z.eqb opid wOP_SEP
-       then if Z.ltb avail sizeof_WBSEP
-            then SStop
-            else if Z.gtb (rd (S (S (S (S O)))) offsetof_WBSEP_len l) avail
-                 then SStop
-                 else SNext (sizeof_WBSEP, fpos, rpos)
-       else if Z.eqb opid wOP_SET
-            then if Z.ltb avail sizeof_WBSET
-                 then SStop
-                 else SNext (sizeof_WBSET, fpos, rpos)
-            else if Z.eqb opid wOP_COPY
-                 then if Z.ltb avail sizeof_WBCOPY
-                      then SStop
-                      else SNext (sizeof_WBCOPY, fpos, rpos)
-                 else if Z.eqb opid wOP_WRITE
-                      then if Z.ltb avail sizeof_WBWRITE
-                           then SStop
-                           else let len =
-                                  rd (S (S (S (S O)))) offsetof_WBWRITE_len l
-                                in
-                                if Z.ltb avail len
-                                then SStop
-                                else SNext ((Z.add sizeof_WBWRITE len), fpos,
-                                       rpos)
-                      else if Z.eqb opid wOP_RESIZE
-                           then if Z.ltb avail sizeof_WBRESIZE
-                                then SStop
-                                else SNext (sizeof_WBRESIZE, fpos, rpos)
-                           else if Z.eqb opid wOP_SAVEPOINT
-                                then if (&&) spchk
-                                          (Z.ltb avail sizeof_WBSAVEPOINT)
-                                     then SStop
-                                     else SNext (sizeof_WBSAVEPOINT, pos,
-                                            rpos)
-                                else if Z.eqb opid wOP_RESET
-                                     then SNext (sizeof_WBRESET, fpos, pos)
-                                     else SStop
+type biter = { it_p : (z list * z) option; it_cur : z; it_cnt : z; it_type : z }
 
-(** val scan_loop :
-    bool -> nat -> bool -> z -> z -> bytes -> z -> z -> z * z **)
+(** val iter_init : z list -> z -> biter option **)
 
-let rec scan_loop spchk fuel first fsz pos l fpos rpos =
-  match fuel with
-  | O -> (fpos, rpos)
-  | S f ->
-    if negb (Z.ltb pos fsz)
-    then (fpos, rpos)
-    else (match scan_step spchk first (Z.sub fsz pos) pos l fpos rpos with
-          | SStop -> (fpos, rpos)
-          | SNext (adv, fp, rp) ->
-            scan_loop spchk f false fsz (Z.add pos adv)
-              (skipn (Z.to_nat adv) l) fp rp)
+let iter_init ptr expected =
+  match read_hdr ptr with
+  | Some p ->
+    let (p0, hs) = p in
+    let (p1, count) = p0 in
+    let (ty, size) = p1 in
+    if negb (Z.eqb ty expected)
+    then None
+    else Some { it_p = (Some ((zskip hs ptr), (Z.sub size hs))); it_cur = Z0;
+           it_cnt = count; it_type = ty }
+  | None -> None
 
-(** val sp_checks : bool **)
+(** val list_next : biter -> (bval * biter) option **)
 
-let sp_checks =
-  Z.eqb wAL_SCAN_SP_CHECKS_AVAIL (Zpos XH)
+let list_next it =
+  match it.it_p with
+  | Some p0 ->
+    let (p, rem) = p0 in
+    if (||) ((||) (Z.leb rem Z0) (Z.gtb it.it_cur it.it_cnt))
+         (negb (Z.eqb it.it_type jbinn_BINN_LIST))
+    then None
+    else let cur = Z.add it.it_cur (Zpos XH) in
+         if Z.gtb cur it.it_cnt
+         then None
+         else (match get_value p with
+               | Some b ->
+                 Some (b, { it_p = (advance p rem); it_cur = cur; it_cnt =
+                   it.it_cnt; it_type = it.it_type })
+               | None -> None)
+  | None -> None
 
-(** val scan_with : bool -> bytes -> z * z **)
+(** val object_next : biter -> ((z list * bval) * biter) option **)
 
-let scan_with spchk wal =
-  scan_loop spchk (S (length wal)) true (Z.of_nat (length wal)) Z0 wal Z0 Z0
+let object_next it =
+  match it.it_p with
+  | Some p0 ->
+    let (p, rem) = p0 in
+    if (||) ((||) (Z.leb rem Z0) (Z.gtb it.it_cur it.it_cnt))
+         (negb (Z.eqb it.it_type jbinn_BINN_OBJECT))
+    then None
+    else let cur = Z.add it.it_cur (Zpos XH) in
+         if Z.gtb cur it.it_cnt
+         then None
+         else (match p with
+               | [] -> None
+               | len :: p1 ->
+                 let key = zfirst len p1 in
+                 let p2 = zskip len p1 in
+                 let r2 = Z.sub (Z.sub rem (Zpos XH)) len in
+                 if Z.leb r2 Z0
+                 then None
+                 else (match get_value p2 with
+                       | Some b ->
+                         Some ((key, b), { it_p = (advance p2 r2); it_cur =
+                           cur; it_cnt = it.it_cnt; it_type = it.it_type })
+                       | None -> None))
+  | None -> None
 
-(** val scan : bytes -> z * z **)
+(** val list_items : nat -> biter -> bval list **)
 
-let scan wal =
-  scan_with sp_checks wal
+let rec list_items n0 it =
+  match n0 with
+  | O -> []
+  | S k ->
+    (match list_next it with
+     | Some p -> let (b, it') = p in b :: (list_items k it')
+     | None -> [])
 
-(** val parse_loop : nat -> bytes -> rec0 list option **)
+(** val obj_items : nat -> biter -> (z list * bval) list **)
 
-let rec parse_loop fuel l =
+let rec obj_items n0 it =
+  match n0 with
+  | O -> []
+  | S k ->
+    (match object_next it with
+     | Some p -> let (p0, it') = p in p0 :: (obj_items k it')
+     | None -> [])
+
+(** val iter_fuel : biter -> nat **)
+
+let iter_fuel it =
+  S (Z.to_nat it.it_cnt)
+
+(** val sx : z -> z -> z **)
+
+let sx bits v =
+  let m = Z.modulo v (Z.pow (Zpos (XO XH)) bits) in
+  if Z.geb m (Z.pow (Zpos (XO XH)) (Z.sub bits (Zpos XH)))
+  then Z.sub m (Z.pow (Zpos (XO XH)) bits)
+  else m
+
+(** val create_scalar : bval -> jval option **)
+
+let create_scalar b =
+  let t = b.bt in
+  if Z.eqb t jbinn_BINN_NULL
+  then Some JNull
+  else if Z.eqb t jbinn_BINN_STRING
+       then Some (JStr (zfirst b.bsize b.bptr))
+       else if Z.eqb t jbinn_BINN_TRUE
+            then Some (JBool true)
+            else if Z.eqb t jbinn_BINN_FALSE
+                 then Some (JBool false)
+                 else if Z.eqb t jbinn_BINN_BOOL
+                      then Some (JBool
+                             (negb
+                               (Z.eqb
+                                 (Z.modulo b.bnum
+                                   (Z.pow (Zpos (XO XH)) (Zpos (XO (XO (XO
+                                     (XO (XO XH)))))))) Z0)))
+                      else if Z.eqb t jbinn_BINN_UINT8
+                           then Some (JI64
+                                  (Z.modulo b.bnum
+                                    (Z.pow (Zpos (XO XH)) (Zpos (XO (XO (XO
+                                      XH)))))))
+                           else if Z.eqb t jbinn_BINN_UINT16
+                                then Some (JI64
+                                       (Z.modulo b.bnum
+                                         (Z.pow (Zpos (XO XH)) (Zpos (XO (XO
+                                           (XO (XO XH))))))))
+                                else if Z.eqb t jbinn_BINN_UINT32
+                                     then Some (JI64
+                                            (Z.modulo b.bnum
+                                              (Z.pow (Zpos (XO XH)) (Zpos (XO
+                                                (XO (XO (XO (XO XH)))))))))
+                                     else if Z.eqb t jbinn_BINN_UINT64
+                                          then Some (JI64
+                                                 (sx (Zpos (XO (XO (XO (XO
+                                                   (XO (XO XH))))))) b.bnum))
+                                          else if Z.eqb t jbinn_BINN_INT8
+                                               then Some (JI64
+                                                      (sx (Zpos (XO (XO (XO
+                                                        XH)))) b.bnum))
+                                               else if Z.eqb t
+                                                         jbinn_BINN_INT16
+                                                    then Some (JI64
+                                                           (sx (Zpos (XO (XO
+                                                             (XO (XO XH)))))
+                                                             b.bnum))
+                                                    else if Z.eqb t
+                                                              jbinn_BINN_INT32
+                                                         then Some (JI64
+                                                                (sx (Zpos (XO
+                                                                  (XO (XO (XO
+                                                                  (XO
+                                                                  XH))))))
+                                                                  b.bnum))
+                                                         else if Z.eqb t
+                                                                   jbinn_BINN_INT64
+                                                              then Some (JI64
+                                                                    (sx (Zpos
+                                                                    (XO (XO
+                                                                    (XO (XO
+                                                                    (XO (XO
+                                                                    XH)))))))
+                                                                    b.bnum))
+                                                              else if 
+                                                                    (||)
+                                                                    (Z.eqb t
+                                                                    jbinn_BINN_FLOAT32)
+                                                                    (Z.eqb t
+                                                                    jbinn_BINN_FLOAT64)
+                                                                   then 
+                                                                    Some
+                                                                    (JF64
+                                                                    b.bnum)
+                                                                   else None
+
+(** val dec_node : nat -> bval -> jval option **)
+
+let rec dec_node fuel b =
   match fuel with
   | O -> None
   | S f ->
-    (match l with
-     | [] -> Some []
-     | opid :: _ ->
-       let avail = Z.of_nat (length l) in
-       let next = fun sz r ->
-         if Z.ltb avail sz
+    if Z.eqb b.bt jbinn_BINN_OBJECT
+    then (match iter_init b.bptr jbinn_BINN_OBJECT with
+          | Some it ->
+            (match let rec go = function
+                   | [] -> Some []
+                   | p :: r ->
+                     let (k, x) = p in
+                     (match dec_node f x with
+                      | Some v ->
+                        (match go r with
+                         | Some vs -> Some ((k, v) :: vs)
+                         | None -> None)
+                      | None -> None)
+                   in go (obj_items (iter_fuel it) it) with
+             | Some ms -> Some (JObj ms)
+             | None -> None)
+          | None -> None)
+    else if Z.eqb b.bt jbinn_BINN_MAP
          then None
-         else (match parse_loop f (skipn (Z.to_nat sz) l) with
-               | Some rs -> Some (r :: rs)
-               | None -> None)
-       in
-       if Z.eqb opid wOP_SEP
-       then next sizeof_WBSEP (RSep
-              ((rd (S (S (S (S O)))) offsetof_WBSEP_crc l),
-              (rd (S (S (S (S O)))) offsetof_WBSEP_len l)))
-       else if Z.eqb opid wOP_SET
-            then next sizeof_WBSET (RSet
-                   ((rd (S (S (S (S O)))) offsetof_WBSET_val l),
-                   (rd_off offsetof_WBSET_off l),
-                   (rd_off offsetof_WBSET_len l)))
-            else if Z.eqb opid wOP_COPY
-                 then next sizeof_WBCOPY (RCopy
-                        ((rd_off offsetof_WBCOPY_off l),
-                        (rd_off offsetof_WBCOPY_len l),
-                        (rd_off offsetof_WBCOPY_noff l)))
-                 else if Z.eqb opid wOP_WRITE
-                      then if Z.ltb avail sizeof_WBWRITE
-                           then None
-                           else let len =
-                                  rd (S (S (S (S O)))) offsetof_WBWRITE_len l
-                                in
-                                next (Z.add sizeof_WBWRITE len) (RWrite
-                                  ((rd (S (S (S (S O)))) offsetof_WBWRITE_crc
-                                     l), (rd_off offsetof_WBWRITE_off l),
-                                  (firstn (Z.to_nat len)
-                                    (skipn (Z.to_nat sizeof_WBWRITE) l))))
-                      else if Z.eqb opid wOP_RESIZE
-                           then next sizeof_WBRESIZE (RResize
-                                  ((rd_off offsetof_WBRESIZE_osize l),
-                                  (rd_off offsetof_WBRESIZE_nsize l)))
-                           else if Z.eqb opid wOP_SAVEPOINT
-                                then next sizeof_WBSAVEPOINT (RSavepoint
-                                       (rd (S (S (S (S (S (S (S (S O))))))))
-                                         offsetof_WBSAVEPOINT_ts l))
-                                else if Z.eqb opid wOP_RESET
-                                     then next sizeof_WBRESET RReset
-                                     else None)
+         else if Z.eqb b.bt jbinn_BINN_LIST
+              then (match iter_init b.bptr jbinn_BINN_LIST with
+                    | Some it ->
+                      (match let rec go = function
+                             | [] -> Some []
+                             | x :: r ->
+                               (match dec_node f x with
+                                | Some v ->
+                                  (match go r with
+                                   | Some vs -> Some (v :: vs)
+                                   | None -> None)
+                                | None -> None)
+                             in go (list_items (iter_fuel it) it) with
+                       | Some vs -> Some (JArr vs)
+                       | None -> None)
+                    | None -> None)
+              else create_scalar b
 
-(** val parse : bytes -> rec0 list option **)
+(** val root_bval : z list -> bval option **)
 
-let parse wal =
-  parse_loop (S (length wal)) wal
-
-(** val is_sp : rec0 -> bool **)
-
-let is_sp = function
-| RSavepoint _ -> true
-| _ -> false
-
-(** val is_sep : rec0 -> bool **)
-
-let is_sep = function
-| RSep (_, _) -> true
-| _ -> false
-
-(** val first_sp : rec0 list -> z -> z option **)
-
-let rec first_sp rs pos =
-  match rs with
-  | [] -> None
-  | r :: t ->
-    if is_sp r then Some pos else first_sp t (Z.add pos (rec_size r))
-
-(** val u32 : z -> bool **)
-
-let u32 x =
-  (&&) (Z.leb Z0 x)
-    (Z.ltb x (Zpos (XO (XO (XO (XO (XO (XO (XO (XO (XO (XO (XO (XO (XO (XO
-      (XO (XO (XO (XO (XO (XO (XO (XO (XO (XO (XO (XO (XO (XO (XO (XO (XO (XO
-      XH))))))))))))))))))))))))))))))))))
-
-(** val i64 : z -> bool **)
-
-let i64 x =
-  (&&)
-    (Z.leb (Zneg (XO (XO (XO (XO (XO (XO (XO (XO (XO (XO (XO (XO (XO (XO (XO
-      (XO (XO (XO (XO (XO (XO (XO (XO (XO (XO (XO (XO (XO (XO (XO (XO (XO (XO
-      (XO (XO (XO (XO (XO (XO (XO (XO (XO (XO (XO (XO (XO (XO (XO (XO (XO (XO
-      (XO (XO (XO (XO (XO (XO (XO (XO (XO (XO (XO (XO
-      XH)))))))))))))))))))))))))))))))))))))))))))))))))))))))))))))))) x)
-    (Z.ltb x (Zpos (XO (XO (XO (XO (XO (XO (XO (XO (XO (XO (XO (XO (XO (XO
-      (XO (XO (XO (XO (XO (XO (XO (XO (XO (XO (XO (XO (XO (XO (XO (XO (XO (XO
-      (XO (XO (XO (XO (XO (XO (XO (XO (XO (XO (XO (XO (XO (XO (XO (XO (XO (XO
-      (XO (XO (XO (XO (XO (XO (XO (XO (XO (XO (XO (XO (XO
-      XH)))))))))))))))))))))))))))))))))))))))))))))))))))))))))))))))))
-
-(** val rec_range : rec0 -> bool **)
-
-let rec_range = function
-| RSep (crc, len) -> (&&) (u32 crc) (u32 len)
-| RSet (val0, off, len) -> (&&) ((&&) (u32 val0) (i64 off)) (i64 len)
-| RCopy (off, len, noff) -> (&&) ((&&) (i64 off) (i64 len)) (i64 noff)
-| RWrite (crc, off, p) ->
-  (&&) ((&&) ((&&) (u32 crc) (i64 off)) (u32 (Z.of_nat (length p))))
-    (forallb (fun b ->
-      (&&) (Z.leb Z0 b)
-        (Z.ltb b (Zpos (XO (XO (XO (XO (XO (XO (XO (XO XH))))))))))) p)
-| RResize (o, n0) -> (&&) (i64 o) (i64 n0)
-| RSavepoint ts ->
-  (&&) (Z.leb Z0 ts)
-    (Z.ltb ts (Zpos (XO (XO (XO (XO (XO (XO (XO (XO (XO (XO (XO (XO (XO (XO
-      (XO (XO (XO (XO (XO (XO (XO (XO (XO (XO (XO (XO (XO (XO (XO (XO (XO (XO
-      (XO (XO (XO (XO (XO (XO (XO (XO (XO (XO (XO (XO (XO (XO (XO (XO (XO (XO
-      (XO (XO (XO (XO (XO (XO (XO (XO (XO (XO (XO (XO (XO (XO
-      XH))))))))))))))))))))))))))))))))))))))))))))))))))))))))))))))))))
-| RReset -> true
-
-(** val sep_ok : rec0 list -> z -> bool **)
-
-let rec sep_ok rs pos =
-  match rs with
-  | [] -> true
-  | r :: t ->
-    (&&)
-      (match r with
-       | RSep (_, len) ->
-         (match first_sp t (Z.add pos (rec_size r)) with
-          | Some q -> Z.leb (Z.add pos len) q
-          | None -> true)
-       | _ -> true) (sep_ok t (Z.add pos (rec_size r)))
-
-(** val wf_log : rec0 list -> bool **)
-
-let wf_log rs =
-  (&&)
-    ((&&) (match rs with
-           | [] -> true
-           | r :: _ -> is_sep r) (forallb rec_range rs)) (sep_ok rs Z0)
-
-(** val crc_ok : rec0 list -> bool **)
-
-let rec crc_ok = function
-| [] -> true
-| r :: t ->
-  (&&)
-    (match r with
-     | RSep (crc, len) ->
-       (||) (Z.eqb crc Z0)
-         (Z.eqb (crc32 (firstn (Z.to_nat len) (encode t)) Z0) crc)
-     | RWrite (crc, _, p) -> (||) (Z.eqb crc Z0) (Z.eqb (crc32 p Z0) crc)
-     | _ -> true) (crc_ok t)
-
-(** val sp_offsets : rec0 list -> z -> z list **)
-
-let rec sp_offsets rs pos =
-  match rs with
-  | [] -> []
-  | r :: t ->
-    app (if is_sp r then pos :: [] else [])
-      (sp_offsets t (Z.add pos (rec_size r)))
-
-type verdict =
-| VOk
-| VCorrupt
-| VFault
-
-type aop =
-| ASet of z * z * z
-| ACopy of z * z * z
-| AWrite of z * bytes
-| AResize of z
-
-(** val take_pad : z -> bytes -> bytes **)
-
-let take_pad n0 l =
-  let t = firstn (Z.to_nat n0) l in
-  app t (repeat Z0 (sub (Z.to_nat n0) (length t)))
-
-type rstep =
-| RStop of verdict
-| RNext of z * aop list
-
-(** val replay_step : bool -> bool -> z -> z -> bytes -> z -> rstep **)
-
-let replay_step ccrc first avail pos l fpos =
-  let opid = nth O l Z0 in
-  if (&&) first (negb (Z.eqb opid wOP_SEP))
-  then RStop VCorrupt
-  else if Z.eqb opid wOP_SEP
-       then if Z.ltb avail sizeof_WBSEP
-            then RStop VCorrupt
-            else let len = rd (S (S (S (S O)))) offsetof_WBSEP_len l in
-                 let crc = rd (S (S (S (S O)))) offsetof_WBSEP_crc l in
-                 if Z.gtb len avail
-                 then RStop VCorrupt
-                 else if (&&) ((&&) ccrc (negb (Z.eqb crc Z0)))
-                           (negb
-                             (Z.eqb
-                               (crc32
-                                 (take_pad len
-                                   (skipn (Z.to_nat sizeof_WBSEP) l)) Z0) crc))
-                      then RStop VCorrupt
-                      else RNext (sizeof_WBSEP, [])
-       else if Z.eqb opid wOP_SET
-            then if Z.ltb avail sizeof_WBSET
-                 then RStop VCorrupt
-                 else RNext (sizeof_WBSET, ((ASet
-                        ((rd (S (S (S (S O)))) offsetof_WBSET_val l),
-                        (rd_off offsetof_WBSET_off l),
-                        (rd_off offsetof_WBSET_len l))) :: []))
-            else if Z.eqb opid wOP_COPY
-                 then if Z.ltb avail sizeof_WBCOPY
-                      then RStop VCorrupt
-                      else RNext (sizeof_WBCOPY, ((ACopy
-                             ((rd_off offsetof_WBCOPY_off l),
-                             (rd_off offsetof_WBCOPY_len l),
-                             (rd_off offsetof_WBCOPY_noff l))) :: []))
-                 else if Z.eqb opid wOP_WRITE
-                      then if Z.ltb avail sizeof_WBWRITE
-                           then RStop VCorrupt
-                           else let len =
-                                  rd (S (S (S (S O)))) offsetof_WBWRITE_len l
-                                in
-                                let crc =
-                                  rd (S (S (S (S O)))) offsetof_WBWRITE_crc l
-                                in
-                                if Z.ltb avail len
-                                then RStop VCorrupt
-                                else let data =
-                                       take_pad len
-                                         (skipn (Z.to_nat sizeof_WBWRITE) l)
-                                     in
-                                     if (&&)
-                                          ((&&) ccrc (negb (Z.eqb crc Z0)))
-                                          (negb (Z.eqb (crc32 data Z0) crc))
-                                     then RStop VCorrupt
-                                     else RNext ((Z.add sizeof_WBWRITE len),
-                                            ((AWrite
-                                            ((rd_off offsetof_WBWRITE_off l),
-                                            data)) :: []))
-                      else if Z.eqb opid wOP_RESIZE
-                           then if Z.ltb avail sizeof_WBRESIZE
-                                then RStop VCorrupt
-                                else RNext (sizeof_WBRESIZE, ((AResize
-                                       (rd_off offsetof_WBRESIZE_nsize l)) :: []))
-                           else if Z.eqb opid wOP_SAVEPOINT
-                                then if Z.eqb fpos pos
-                                     then RStop VOk
-                                     else RNext (sizeof_WBSAVEPOINT, [])
-                                else if Z.eqb opid wOP_RESET
-                                     then RNext (sizeof_WBRESET, [])
-                                     else RStop VCorrupt
-
-(** val replay_loop :
-    nat -> bool -> bool -> z -> z -> bytes -> z -> verdict * aop list **)
-
-let rec replay_loop fuel ccrc first fsz pos l fpos =
-  match fuel with
-  | O -> (VOk, [])
-  | S f ->
-    if negb (Z.ltb pos fsz)
-    then (VOk, [])
-    else (match replay_step ccrc first (Z.sub fsz pos) pos l fpos with
-          | RStop v -> (v, [])
-          | RNext (adv, op) ->
-            let (v, ops) =
-              replay_loop f ccrc false fsz (Z.add pos adv)
-                (skipn (Z.to_nat adv) l) fpos
-            in
-            (v, (app op ops)))
-
-(** val replay_ops_with :
-    bool -> bool -> z -> z -> bytes -> verdict * aop list **)
-
-let replay_ops_with spchk ccrc mode rfoff wal =
-  let fsz = Z.of_nat (length wal) in
-  if Z.eqb fsz Z0
-  then (VOk, [])
-  else if negb (Z.eqb mode Z0)
-       then let (fpos, rpos) = scan_with spchk wal in
-            if Z.eqb fpos Z0
-            then (VOk, [])
-            else if (&&) (Z.gtb rpos Z0) (Z.eqb mode (Zpos XH))
-                 then if Z.ltb fpos rpos
-                      then (VOk, [])
-                      else let r = Z.sub rpos sizeof_WBSEP in
-                           replay_loop (S (length wal)) ccrc true
-                             (Z.sub fsz r) Z0 (skipn (Z.to_nat r) wal) fpos
-                 else replay_loop (S (length wal)) ccrc true fsz Z0 wal fpos
-       else if Z.gtb rfoff Z0
-            then if Z.geb rfoff fsz
-                 then (VCorrupt, [])
-                 else replay_loop (S (length wal)) ccrc true
-                        (Z.sub fsz rfoff) Z0 (skipn (Z.to_nat rfoff) wal) Z0
-            else replay_loop (S (length wal)) ccrc true fsz Z0 wal Z0
-
-(** val replay_ops : bool -> z -> z -> bytes -> verdict * aop list **)
-
-let replay_ops ccrc mode rfoff wal =
-  replay_ops_with sp_checks ccrc mode rfoff wal
-
-(** val overwrite : bytes -> bytes -> bytes option **)
-
-let rec overwrite m = function
-| [] -> Some m
-| d :: ds ->
-  (match m with
-   | [] -> None
-   | _ :: t -> option_map (fun x -> d :: x) (overwrite t ds))
-
-(** val splice_at : bytes -> z -> bytes -> bytes option **)
-
-let rec splice_at m off data =
-  if Z.leb off Z0
-  then overwrite m data
-  else (match m with
-        | [] -> None
-        | x :: t ->
-          option_map (fun x0 -> x :: x0)
-            (splice_at t (Z.sub off (Zpos XH)) data))
-
-(** val splice : bytes -> z -> bytes -> bytes option **)
-
-let splice m off data =
-  if Z.ltb off Z0 then None else splice_at m off data
-
-(** val fill_at : bytes -> z -> z -> z -> bytes option **)
-
-let rec fill_at m off len v =
-  match m with
-  | [] -> if (&&) (Z.leb off Z0) (Z.leb len Z0) then Some [] else None
-  | x :: t ->
-    if Z.ltb Z0 off
-    then option_map (fun x0 -> x :: x0)
-           (fill_at t (Z.sub off (Zpos XH)) len v)
-    else if Z.ltb Z0 len
-         then option_map (fun x0 -> v :: x0)
-                (fill_at t Z0 (Z.sub len (Zpos XH)) v)
-         else Some m
-
-(** val slice_at : bytes -> z -> z -> bytes option **)
-
-let rec slice_at m off len =
-  match m with
-  | [] -> if (&&) (Z.leb off Z0) (Z.leb len Z0) then Some [] else None
-  | x :: t ->
-    if Z.ltb Z0 off
-    then slice_at t (Z.sub off (Zpos XH)) len
-    else if Z.ltb Z0 len
-         then option_map (fun x0 -> x :: x0)
-                (slice_at t Z0 (Z.sub len (Zpos XH)))
-         else Some []
-
-(** val resize_nat : nat -> bytes -> bytes **)
-
-let rec resize_nat n0 m =
-  match n0 with
-  | O -> []
-  | S k ->
-    (match m with
-     | [] -> Z0 :: (resize_nat k [])
-     | x :: t -> x :: (resize_nat k t))
-
-(** val apply_op : bytes -> aop -> bytes option **)
-
-let apply_op m = function
-| ASet (val0, off, len) ->
-  if (||) (Z.ltb len Z0) (Z.ltb off Z0)
+let root_bval bs =
+  if Z.ltb (zlen bs) jbinn_MIN_BINN_SIZE
   then None
-  else fill_at m off len
-         (Z.modulo val0 (Zpos (XO (XO (XO (XO (XO (XO (XO (XO XH))))))))))
-| ACopy (off, len, noff) ->
-  if (||) (Z.ltb len Z0) (Z.ltb off Z0)
-  then None
-  else (match slice_at m off len with
-        | Some src -> splice m noff src
+  else (match read_hdr bs with
+        | Some p ->
+          let (p0, _) = p in
+          let (p1, count) = p0 in
+          let (ty, size) = p1 in
+          if Z.gtb size (zlen bs)
+          then None
+          else Some { bt = ty; bnum = Z0; bsize = size; bcount = count;
+                 bptr = bs }
         | None -> None)
-| AWrite (off, data) -> splice m off data
-| AResize nsize ->
-  if (||) (Z.ltb nsize Z0)
-       (Z.ltb (Zpos (XO (XO (XO (XO (XO (XO (XO (XO (XO (XO (XO (XO (XO (XO
-         (XO (XO (XO (XO (XO (XO (XO (XO (XO (XO XH)))))))))))))))))))))))))
-         nsize)
+
+(** val binn_decode : z list -> jval option **)
+
+let binn_decode bs =
+  match root_bval bs with
+  | Some b -> dec_node (S (length bs)) b
+  | None -> None
+
+(** val compress_int : z -> z * nat **)
+
+let compress_int v =
+  if Z.geb v Z0
+  then if Z.leb v jbinn_UINT8_MAX
+       then (jbinn_BINN_UINT8, (S O))
+       else if Z.leb v jbinn_UINT16_MAX
+            then (jbinn_BINN_UINT16, (S (S O)))
+            else if Z.leb v jbinn_UINT32_MAX
+                 then (jbinn_BINN_UINT32, (S (S (S (S O)))))
+                 else (jbinn_BINN_INT64, (S (S (S (S (S (S (S (S O)))))))))
+  else if Z.geb v jbinn_INT8_MIN
+       then (jbinn_BINN_INT8, (S O))
+       else if Z.geb v jbinn_INT16_MIN
+            then (jbinn_BINN_INT16, (S (S O)))
+            else if Z.geb v jbinn_INT32_MIN
+                 then (jbinn_BINN_INT32, (S (S (S (S O)))))
+                 else (jbinn_BINN_INT64, (S (S (S (S (S (S (S (S O)))))))))
+
+(** val wr_field : z -> z list **)
+
+let wr_field n0 =
+  if Z.gtb n0 (Zpos (XI (XI (XI (XI (XI (XI XH)))))))
+  then be_bytes (S (S (S (S O))))
+         (Z.coq_lor n0 (Zpos (XO (XO (XO (XO (XO (XO (XO (XO (XO (XO (XO (XO
+           (XO (XO (XO (XO (XO (XO (XO (XO (XO (XO (XO (XO (XO (XO (XO (XO
+           (XO (XO (XO XH)))))))))))))))))))))))))))))))))
+  else n0 :: []
+
+(** val save_header : z -> z list -> z -> z list option **)
+
+let save_header ty body count =
+  let size0 = Z.add (zlen body) jbinn_MIN_BINN_SIZE in
+  let size1 =
+    if Z.gtb count (Zpos (XI (XI (XI (XI (XI (XI XH)))))))
+    then Z.add size0 (Zpos (XI XH))
+    else size0
+  in
+  let size2 =
+    if Z.gtb size1 (Zpos (XI (XI (XI (XI (XI (XI XH)))))))
+    then Z.add size1 (Zpos (XI XH))
+    else size1
+  in
+  if Z.gtb size2 (Zpos (XI (XI (XI (XI (XI (XI (XI (XI (XI (XI (XI (XI (XI
+       (XI (XI (XI (XI (XI (XI (XI (XI (XI (XI (XI (XI (XI (XI (XI (XI (XI
+       XH)))))))))))))))))))))))))))))))
   then None
-  else Some (resize_nat (Z.to_nat (iW_ROUNDUP nsize wAL_PAGE_SIZE)) m)
+  else Some (ty :: (app (wr_field size2) (app (wr_field count) body)))
 
-(** val apply_ops : bytes -> aop list -> bytes option **)
+(** val search_key : nat -> z list -> z -> z list -> bool **)
 
-let rec apply_ops m = function
-| [] -> Some m
-| op :: r ->
-  (match apply_op m op with
-   | Some m' -> apply_ops m' r
+let rec search_key n0 p rem key =
+  match n0 with
+  | O -> false
+  | S k ->
+    (match p with
+     | [] -> false
+     | len :: p1 ->
+       let r1 = Z.sub rem (Zpos XH) in
+       if Z.leb r1 Z0
+       then false
+       else let next = fun q r ->
+              match advance q r with
+              | Some p0 -> let (q', r') = p0 in search_key k q' r' key
+              | None -> false
+            in
+            if Z.gtb len Z0
+            then if (&&) (strnieq p1 (app key (Z0 :: [])) (Z.to_nat len))
+                      (Z.eqb (zlen key) len)
+                 then true
+                 else if Z.leb (Z.sub r1 len) Z0
+                      then false
+                      else next (zskip len p1) (Z.sub r1 len)
+            else if Z.eqb len (zlen key) then true else next p1 r1)
+
+(** val enc_item : jval -> z list option **)
+
+let rec enc_item = function
+| JNull -> Some (jbinn_BINN_NULL :: [])
+| JBool b -> Some ((if b then jbinn_BINN_TRUE else jbinn_BINN_FALSE) :: [])
+| JI64 n0 -> let (t, k) = compress_int n0 in Some (t :: (be_bytes k n0))
+| JF64 bits ->
+  Some
+    (jbinn_BINN_DOUBLE :: (be_bytes (S (S (S (S (S (S (S (S O)))))))) bits))
+| JStr s ->
+  let s' = if Z.eqb jbinn_STRING_KEEPS_NUL (Zpos XH) then s else cstr s in
+  Some (jbinn_BINN_STRING :: (app (wr_field (zlen s')) (app s' (Z0 :: []))))
+| JArr items ->
+  (match let rec go l body cnt =
+           match l with
+           | [] -> Some (body, cnt)
+           | x :: r ->
+             (match enc_item x with
+              | Some bx -> go r (app body bx) (Z.add cnt (Zpos XH))
+              | None -> None)
+         in go items [] Z0 with
+   | Some p -> let (body, cnt) = p in save_header jbinn_BINN_LIST body cnt
+   | None -> None)
+| JObj ms ->
+  (match let rec go l body cnt =
+           match l with
+           | [] -> Some (body, cnt)
+           | p :: r ->
+             let (k, x) = p in
+             (match enc_item x with
+              | Some bx ->
+                if Z.gtb (zlen k) jbinn_MAX_BIN_KEY_LEN
+                then None
+                else if search_key (Z.to_nat cnt) body (zlen body) k
+                     then None
+                     else go r (app body ((zlen k) :: (app k bx)))
+                            (Z.add cnt (Zpos XH))
+              | None -> None)
+         in go ms [] Z0 with
+   | Some p -> let (body, cnt) = p in save_header jbinn_BINN_OBJECT body cnt
    | None -> None)
 
-(** val recover_with :
-    bool -> bool -> z -> z -> bytes -> bytes -> (verdict * bytes) * aop list **)
+(** val binn_encode : jval -> z list option **)
 
-let recover_with spchk ccrc mode rfoff wal main =
-  let (v, ops) = replay_ops_with spchk ccrc mode rfoff wal in
-  (match apply_ops main ops with
-   | Some m -> ((v, m), ops)
-   | None -> ((VFault, main), ops))
+let binn_encode v = match v with
+| JArr _ -> enc_item v
+| JObj _ -> enc_item v
+| _ -> None
 
-(** val recover :
-    bool -> z -> z -> bytes -> bytes -> (verdict * bytes) * aop list **)
+(** val binn_clone : z list -> z list option **)
 
-let recover ccrc mode rfoff wal main =
-  recover_with sp_checks ccrc mode rfoff wal main
+let binn_clone bs =
+  match read_hdr bs with
+  | Some p ->
+    let (p0, hs) = p in
+    let (p1, count) = p0 in
+    let (ty, size) = p1 in
+    let body = firstn (Z.to_nat (Z.sub size hs)) (zskip hs bs) in
+    save_header ty body count
+  | None -> None
 
-(** val aop_sig : aop -> (z * z) * z **)
+(** val binn_clone_into_pool : z list -> z list option **)
 
-let aop_sig = function
-| ASet (_, off, len) -> ((wOP_SET, off), len)
-| ACopy (_, len, noff) -> ((wOP_COPY, noff), len)
-| AWrite (off, d) -> ((wOP_WRITE, off), (Z.of_nat (length d)))
-| AResize n0 -> ((wOP_RESIZE, n0), Z0)
+let binn_clone_into_pool bs =
+  match read_hdr bs with
+  | Some p ->
+    let (p0, _) = p in
+    let (p1, _) = p0 in let (_, size) = p1 in Some (zfirst size bs)
+  | None -> None
 
-type effect =
-| ELogAppend of bytes
-| ELogFsync
-| ELogTruncate
-| EMainStore of aop
-| EMainResize of z
-| EMsync
+(** val char_ok : z -> bool **)
 
-type pstate = { p_buf : bytes; p_log : bytes; p_disk : bytes; p_rfoff : 
-                z; p_stage : z; p_fatal : bool }
+let char_ok c =
+  (&&) (Z.leb (Zpos XH) c)
+    (Z.leb c (Zpos (XI (XI (XI (XI (XI (XI (XI XH)))))))))
 
-type pcfg = { c_bufsz : z; c_ccrc : bool }
+(** val key_ieq : z list -> z list -> bool **)
 
-(** val lenZ : bytes -> z **)
+let rec key_ieq a b =
+  match a with
+  | [] -> (match b with
+           | [] -> true
+           | _ :: _ -> false)
+  | x :: a' ->
+    (match b with
+     | [] -> false
+     | y :: b' -> (&&) (Z.eqb (tolower x) (tolower y)) (key_ieq a' b'))
 
-let lenZ l =
-  Z.of_nat (length l)
+(** val keys_unique : z list list -> bool **)
 
-(** val flush_wl : pcfg -> pstate -> bool -> pstate * effect list **)
+let rec keys_unique = function
+| [] -> true
+| k :: r -> (&&) (negb (existsb (key_ieq k) r)) (keys_unique r)
 
-let flush_wl c s sync =
-  let (s1, e1) =
-    match s.p_buf with
-    | [] -> (s, [])
-    | _ :: _ ->
-      let crc = if c.c_ccrc then crc32 s.p_buf Z0 else Z0 in
-      let seg = app (enc_rec (RSep (crc, (lenZ s.p_buf)))) s.p_buf in
-      ({ p_buf = []; p_log = (app s.p_log seg); p_disk = s.p_disk; p_rfoff =
-      s.p_rfoff; p_stage = s.p_stage; p_fatal = s.p_fatal }, ((ELogAppend
-      seg) :: []))
-  in
-  (s1, (app e1 (if sync then ELogFsync :: [] else [])))
+(** val wf : jval -> bool **)
 
-(** val write_wl :
-    pcfg -> pstate -> bytes -> bytes -> pstate * effect list **)
+let rec wf = function
+| JI64 n0 ->
+  (&&)
+    (Z.leb (Z.opp (Z.pow (Zpos (XO XH)) (Zpos (XI (XI (XI (XI (XI XH))))))))
+      n0) (Z.ltb n0 (Z.pow (Zpos (XO XH)) (Zpos (XI (XI (XI (XI (XI XH))))))))
+| JF64 b ->
+  (&&) (Z.leb Z0 b)
+    (Z.ltb b (Z.pow (Zpos (XO XH)) (Zpos (XO (XO (XO (XO (XO (XO XH)))))))))
+| JStr s -> forallb char_ok s
+| JArr items -> forallb wf items
+| JObj ms ->
+  (&&)
+    (forallb (fun m ->
+      (&&)
+        ((&&) (forallb char_ok (fst m))
+          (Z.leb (zlen (fst m)) jbinn_MAX_BIN_KEY_LEN)) (wf (snd m))) ms)
+    (keys_unique (map fst ms))
+| _ -> true
 
-let write_wl c s hdr0 data =
-  let (s1, e1) =
-    if Z.ltb (Z.sub c.c_bufsz (lenZ s.p_buf)) (lenZ hdr0)
-    then flush_wl c s false
-    else (s, [])
-  in
-  let s2 = { p_buf = (app s1.p_buf hdr0); p_log = s1.p_log; p_disk =
-    s1.p_disk; p_rfoff = s1.p_rfoff; p_stage = s1.p_stage; p_fatal =
-    s1.p_fatal }
-  in
-  if Z.ltb (Z.sub c.c_bufsz (lenZ s2.p_buf)) (lenZ data)
-  then let (s3, e3) = flush_wl c s2 false in
-       ({ p_buf = s3.p_buf; p_log = (app s3.p_log data); p_disk = s3.p_disk;
-       p_rfoff = s3.p_rfoff; p_stage = s3.p_stage; p_fatal = s3.p_fatal },
-       (app e1 (app e3 ((ELogAppend data) :: []))))
-  else ({ p_buf = (app s2.p_buf data); p_log = s2.p_log; p_disk = s2.p_disk;
-         p_rfoff = s2.p_rfoff; p_stage = s2.p_stage; p_fatal = s2.p_fatal },
-         e1)
+type pres =
+| PErr
+| PUndef
+| POk of z list list
 
-(** val replay_effects : z -> aop list -> effect list **)
+(** val seg_scan : z list -> z list -> (z list * z list) option **)
 
-let rec replay_effects cur = function
+let rec seg_scan p acc =
+  match p with
+  | [] -> Some ((rev acc), [])
+  | c :: p1 ->
+    if Z.eqb c (Zpos (XI (XI (XI (XI (XO XH))))))
+    then Some ((rev acc), p)
+    else if Z.eqb c (Zpos (XO (XI (XI (XI (XI (XI XH)))))))
+         then (match p1 with
+               | [] -> None
+               | d :: p2 ->
+                 if Z.eqb d (Zpos (XO (XO (XO (XO (XI XH))))))
+                 then seg_scan p2 ((Zpos (XO (XI (XI (XI (XI (XI
+                        XH))))))) :: acc)
+                 else if Z.eqb d (Zpos (XI (XO (XO (XO (XI XH))))))
+                      then seg_scan p2 ((Zpos (XI (XI (XI (XI (XO
+                             XH)))))) :: acc)
+                      else None)
+         else seg_scan p1 (c :: acc)
+
+(** val segs_scan : nat -> z list -> z list list option **)
+
+let rec segs_scan cnt p =
+  match cnt with
+  | O -> Some []
+  | S k ->
+    (match p with
+     | [] -> Some []
+     | c :: p1 ->
+       if Z.eqb c (Zpos (XI (XI (XI (XI (XO XH))))))
+       then (match seg_scan p1 [] with
+             | Some p0 ->
+               let (s, rest) = p0 in
+               (match segs_scan k rest with
+                | Some ss -> Some (s :: ss)
+                | None -> None)
+             | None -> None)
+       else None)
+
+(** val count_slash : z list -> nat **)
+
+let count_slash p =
+  length (filter (fun c -> Z.eqb c (Zpos (XI (XI (XI (XI (XO XH))))))) p)
+
+(** val ptr_parse3 : z list -> pres **)
+
+let ptr_parse3 path =
+  let p = cstr path in
+  (match p with
+   | [] -> POk []
+   | c :: _ ->
+     if negb (Z.eqb c (Zpos (XI (XI (XI (XI (XO XH)))))))
+     then PErr
+     else if (&&) (Z.gtb (zlen p) (Zpos XH))
+               (Z.eqb (last p Z0) (Zpos (XI (XI (XI (XI (XO XH)))))))
+          then PErr
+          else (match segs_scan (count_slash p) p with
+                | Some ss -> POk ss
+                | None -> PUndef))
+
+(** val rfc_unescape : z list -> z list option **)
+
+let rec rfc_unescape = function
+| [] -> Some []
+| c :: r ->
+  if Z.eqb c (Zpos (XO (XI (XI (XI (XI (XI XH)))))))
+  then (match r with
+        | [] -> None
+        | d :: r' ->
+          if Z.eqb d (Zpos (XO (XO (XO (XO (XI XH))))))
+          then option_map (fun x -> (Zpos (XO (XI (XI (XI (XI (XI
+                 XH))))))) :: x) (rfc_unescape r')
+          else if Z.eqb d (Zpos (XI (XO (XO (XO (XI XH))))))
+               then option_map (fun x -> (Zpos (XI (XI (XI (XI (XO
+                      XH)))))) :: x) (rfc_unescape r')
+               else None)
+  else option_map (fun x -> c :: x) (rfc_unescape r)
+
+(** val split_slash : z list -> z list -> z list list **)
+
+let rec split_slash p cur =
+  match p with
+  | [] -> (rev cur) :: []
+  | c :: r ->
+    if Z.eqb c (Zpos (XI (XI (XI (XI (XO XH))))))
+    then (rev cur) :: (split_slash r [])
+    else split_slash r (c :: cur)
+
+(** val all_some : 'a1 option list -> 'a1 list option **)
+
+let rec all_some = function
+| [] -> Some []
+| o :: r ->
+  (match o with
+   | Some x ->
+     (match all_some r with
+      | Some xs -> Some (x :: xs)
+      | None -> None)
+   | None -> None)
+
+(** val rfc_ptr_parse : z list -> z list list option **)
+
+let rfc_ptr_parse = function
+| [] -> Some []
+| c :: r ->
+  if Z.eqb c (Zpos (XI (XI (XI (XI (XO XH))))))
+  then all_some (map rfc_unescape (split_slash r []))
+  else None
+
+(** val is_digit : z -> bool **)
+
+let is_digit c =
+  (&&) (Z.leb (Zpos (XO (XO (XO (XO (XI XH)))))) c)
+    (Z.leb c (Zpos (XI (XO (XO (XI (XI XH)))))))
+
+(** val rfc_index : z list -> z option **)
+
+let rfc_index s = match s with
+| [] -> None
+| c :: r ->
+  (match r with
+   | [] ->
+     if is_digit c
+     then Some (Z.sub c (Zpos (XO (XO (XO (XO (XI XH)))))))
+     else None
+   | _ :: _ ->
+     if (&&)
+          ((&&) (Z.leb (Zpos (XI (XO (XO (XO (XI XH)))))) c)
+            (Z.leb c (Zpos (XI (XO (XO (XI (XI XH)))))))) (forallb is_digit r)
+     then Some
+            (fold_left (fun a d ->
+              Z.add (Z.mul a (Zpos (XO (XI (XO XH)))))
+                (Z.sub d (Zpos (XO (XO (XO (XO (XI XH)))))))) s Z0)
+     else None)
+
+(** val find_key : z list -> (z list * jval) list -> jval option **)
+
+let rec find_key k = function
+| [] -> None
+| p :: r -> let (k', x) = p in if bytes_eqb k k' then Some x else find_key k r
+
+(** val rfc6901_at : z list list -> jval -> jval option **)
+
+let rec rfc6901_at segs v =
+  match segs with
+  | [] -> Some v
+  | s :: rest ->
+    (match v with
+     | JArr items ->
+       (match rfc_index s with
+        | Some i ->
+          (match nth_error items (Z.to_nat i) with
+           | Some x -> rfc6901_at rest x
+           | None -> None)
+        | None -> None)
+     | JObj ms ->
+       (match find_key s ms with
+        | Some x -> rfc6901_at rest x
+        | None -> None)
+     | _ -> None)
+
+(** val digits_rev : nat -> z -> z list **)
+
+let rec digits_rev fuel n0 =
+  match fuel with
+  | O -> []
+  | S f ->
+    if Z.ltb n0 (Zpos (XO (XI (XO XH))))
+    then (Z.add (Zpos (XO (XO (XO (XO (XI XH)))))) n0) :: []
+    else (Z.add (Zpos (XO (XO (XO (XO (XI XH))))))
+           (Z.modulo n0 (Zpos (XO (XI (XO XH)))))) :: (digits_rev f
+                                                        (Z.div n0 (Zpos (XO
+                                                          (XI (XO XH))))))
+
+(** val itoa : z -> z list **)
+
+let itoa n0 =
+  rev (digits_rev (S (S (S (S (S (S (S (S (S (S (S O))))))))))) n0)
+
+(** val star : z list -> bool **)
+
+let star = function
+| [] -> false
+| z0 :: l ->
+  (match z0 with
+   | Zpos p ->
+     (match p with
+      | XO p0 ->
+        (match p0 with
+         | XI p1 ->
+           (match p1 with
+            | XO p2 ->
+              (match p2 with
+               | XI p3 ->
+                 (match p3 with
+                  | XO p4 ->
+                    (match p4 with
+                     | XH -> (match l with
+                              | [] -> true
+                              | _ :: _ -> false)
+                     | _ -> false)
+                  | _ -> false)
+               | _ -> false)
+            | _ -> false)
+         | _ -> false)
+      | _ -> false)
+   | _ -> false)
+
+(** val seg_at : z list list -> z -> z list **)
+
+let seg_at ptr lvl =
+  nth (Z.to_nat lvl) ptr []
+
+(** val strncmp_eq : z list -> z list -> z -> bool **)
+
+let strncmp_eq a b n0 =
+  bytes_eqb (zfirst n0 (cstr a)) (zfirst n0 (cstr b))
+
+(** val upd_jbl : z list list -> z -> z -> z list option -> z -> z * bool **)
+
+let upd_jbl ptr pos lvl key idx =
+  let cnt = zlen ptr in
+  if Z.ltb lvl cnt
+  then let pos1 = if Z.geb pos lvl then Z.sub lvl (Zpos XH) else pos in
+       if Z.eqb (Z.add pos1 (Zpos XH)) lvl
+       then let keyptr = match key with
+                         | Some k -> cstr k
+                         | None -> itoa idx in
+            let seg = seg_at ptr lvl in
+            if (||) (bytes_eqb keyptr seg) (star seg)
+            then (lvl, (Z.eqb cnt (Z.add lvl (Zpos XH))))
+            else (pos1, false)
+       else (pos1, false)
+  else (pos, false)
+
+(** val upd_jbn : z list list -> z -> z -> z list option -> z -> z * bool **)
+
+let upd_jbn ptr pos lvl key idx =
+  let cnt = zlen ptr in
+  if Z.ltb lvl cnt
+  then let pos1 = if Z.geb pos lvl then Z.sub lvl (Zpos XH) else pos in
+       if Z.eqb (Z.add pos1 (Zpos XH)) lvl
+       then let keyptr = match key with
+                         | Some k -> k
+                         | None -> itoa idx in
+            let idx' = match key with
+                       | Some _ -> idx
+                       | None -> zlen (itoa idx)
+            in
+            let seg = seg_at ptr lvl in
+            let jplen = zlen seg in
+            if (||) ((&&) (Z.eqb idx' jplen) (strncmp_eq keyptr seg idx'))
+                 (star seg)
+            then (lvl, (Z.eqb cnt (Z.add lvl (Zpos XH))))
+            else (pos1, false)
+       else (pos1, false)
+  else (pos, false)
+
+type 'n kres =
+| KNot
+| KErr of z
+| KSome of ((z list option * z) * 'n) list
+
+(** val e_INVALID : z **)
+
+let e_INVALID =
+  Zpos XH
+
+(** val e_NESTING : z **)
+
+let e_NESTING =
+  Zpos (XO XH)
+
+(** val e_FUEL : z **)
+
+let e_FUEL =
+  Zpos (XI XH)
+
+(** val e_DECODE : z **)
+
+let e_DECODE =
+  Zpos (XO (XO XH))
+
+type 'n vst = { v_pos : z; v_res : 'n option; v_term : bool }
+
+type 'n vr =
+| VErr of z
+| VOk of 'n vst
+
+(** val visit :
+    ('a1 -> 'a1 kres) -> (z list list -> z -> z -> z list option -> z ->
+    z * bool) -> bool -> z list list -> nat -> z -> ((z list
+    option * z) * 'a1) list -> 'a1 vst -> 'a1 vr **)
+
+let rec visit kids upd enter_after_terminate ptr fuel lvl cs st =
+  match fuel with
+  | O -> VErr e_FUEL
+  | S f ->
+    let rec loop cs0 st0 =
+      match cs0 with
+      | [] -> VOk st0
+      | p :: rest ->
+        let (p0, n0) = p in
+        let (key, idx) = p0 in
+        if st0.v_term
+        then VOk st0
+        else let (pos', matched) = upd ptr st0.v_pos lvl key idx in
+             let st1 =
+               if matched
+               then { v_pos = pos'; v_res = (Some n0); v_term = true }
+               else { v_pos = pos'; v_res = st0.v_res; v_term = false }
+             in
+             let skip =
+               (&&) (negb matched) (Z.ltb (zlen ptr) (Z.add lvl (Zpos XH)))
+             in
+             if (&&) matched (negb enter_after_terminate)
+             then VOk st1
+             else if skip
+                  then loop rest st1
+                  else (match kids n0 with
+                        | KNot -> loop rest st1
+                        | KErr e -> VErr e
+                        | KSome cs' ->
+                          if Z.gtb (Z.add lvl (Zpos XH))
+                               jbinn_JBL_MAX_NESTING_LEVEL
+                          then VErr e_NESTING
+                          else (match visit kids upd enter_after_terminate
+                                        ptr f (Z.add lvl (Zpos XH)) cs' st1 with
+                                | VErr e -> VErr e
+                                | VOk st2 -> loop rest st2))
+    in loop cs st
+
+type 'n at_res =
+| AtFound of 'n
+| AtNotFound
+| AtPtrErr
+| AtPtrUndef
+| AtErr of z
+
+(** val at_fuel : z list list -> nat **)
+
+let at_fuel ptr =
+  S (S (length ptr))
+
+(** val number : z -> 'a1 list -> ((z list option * z) * 'a1) list **)
+
+let rec number i = function
 | [] -> []
-| op :: t ->
-  (match op with
-   | AResize n0 ->
-     let n' = iW_ROUNDUP n0 wAL_PAGE_SIZE in
-     app
-       (if Z.eqb n' cur
-        then []
-        else if Z.ltb cur n'
-             then (EMainResize n') :: (EMsync :: [])
-             else EMsync :: ((EMainResize n') :: []))
-       (app ((EMainStore op) :: []) (replay_effects n' t))
-   | _ -> (EMainStore op) :: (replay_effects cur t))
+| x :: r -> ((None, i), x) :: (number (Z.add i (Zpos XH)) r)
 
-(** val rollforward_live : pcfg -> pstate -> pstate * effect list **)
+(** val kids_j : jval -> jval kres **)
 
-let rollforward_live c s =
-  let fsz = lenZ s.p_log in
-  if Z.eqb fsz Z0
-  then (s, [])
-  else let (v, ops) = replay_ops c.c_ccrc Z0 s.p_rfoff s.p_log in
-       let disk' =
-         match apply_ops s.p_disk ops with
-         | Some m -> m
-         | None -> s.p_disk
-       in
-       let e_apply = replay_effects (lenZ s.p_disk) ops in
-       (match v with
-        | VOk ->
-          if (||) (Z.eqb s.p_stage Z0) (Z.eqb s.p_stage bKP_WAL_CLEANUP)
-          then ({ p_buf = s.p_buf; p_log = []; p_disk = disk'; p_rfoff = Z0;
-                 p_stage = s.p_stage; p_fatal = s.p_fatal },
-                 (app e_apply (EMsync :: (ELogTruncate :: (ELogFsync :: [])))))
-          else let (s1, e1) =
-                 flush_wl c { p_buf = s.p_buf; p_log = s.p_log; p_disk =
-                   disk'; p_rfoff = s.p_rfoff; p_stage = s.p_stage; p_fatal =
-                   s.p_fatal } false
-               in
-               let (s2, e2) = write_wl c s1 (enc_rec RReset) [] in
-               let (s3, e3) = flush_wl c s2 true in
-               ({ p_buf = s3.p_buf; p_log = s3.p_log; p_disk = s3.p_disk;
-               p_rfoff =
-               (Z.sub (lenZ s3.p_log) (Z.add sizeof_WBSEP sizeof_WBRESET));
-               p_stage = s3.p_stage; p_fatal = s3.p_fatal },
-               (app e_apply (app (EMsync :: []) (app e1 (app e2 e3)))))
-        | _ ->
-          ({ p_buf = s.p_buf; p_log = s.p_log; p_disk = disk'; p_rfoff =
-            s.p_rfoff; p_stage = s.p_stage; p_fatal = true }, e_apply))
+let kids_j = function
+| JArr items -> KSome (number Z0 items)
+| JObj ms ->
+  KSome (map (fun m -> (((Some (fst m)), (zlen (fst m))), (snd m))) ms)
+| _ -> KNot
 
-(** val checkpoint : pcfg -> pstate -> bool -> z -> pstate * effect list **)
+(** val at_tree2 : jval -> z list list -> jval at_res **)
 
-let checkpoint c s no_fixpoint ts =
-  if Z.eqb s.p_stage bKP_MAIN_COPY
-  then (s, [])
-  else let (s1, e1) =
-         if no_fixpoint
-         then (s, [])
-         else write_wl c s (enc_rec (RSavepoint ts)) []
-       in
-       let (s2, e2) = flush_wl c s1 true in
-       let (s3, e3) = rollforward_live c s2 in (s3, (app e1 (app e2 e3)))
+let at_tree2 v ptr = match ptr with
+| [] -> AtFound v
+| _ :: _ ->
+  (match kids_j v with
+   | KSome cs ->
+     (match visit kids_j upd_jbn true ptr (at_fuel ptr) Z0 cs { v_pos = (Zneg
+              XH); v_res = None; v_term = false } with
+      | VErr e -> AtErr e
+      | VOk st ->
+        (match st.v_res with
+         | Some r -> AtFound r
+         | None -> AtNotFound))
+   | _ -> AtNotFound)
 
-(** val savepoint : pcfg -> pstate -> z -> bool -> pstate * effect list **)
+(** val at_tree : jval -> z list -> jval at_res **)
 
-let savepoint c s ts sync =
-  let (s1, e1) = write_wl c s (enc_rec (RSavepoint ts)) [] in
-  let (s2, e2) = flush_wl c s1 sync in (s2, (app e1 e2))
+let at_tree v path =
+  match ptr_parse3 path with
+  | PErr -> AtPtrErr
+  | PUndef -> AtPtrUndef
+  | POk ptr -> at_tree2 v ptr
 
-type event =
-| VWrite of z * bytes
-| VSet of z * z * z
-| VCopy of z * z * z
-| VResize of z * z
-| VSynced
-| VSavepoint of z * bool
-| VCheckpoint of z
+(** val kids_b : bval -> bval kres **)
 
-(** val write_hdr : z -> z -> z -> bytes **)
+let kids_b b =
+  if Z.eqb b.bt jbinn_BINN_OBJECT
+  then (match iter_init b.bptr jbinn_BINN_OBJECT with
+        | Some it ->
+          KSome
+            (map (fun m -> (((Some (fst m)), (Zneg XH)), (snd m)))
+              (obj_items (iter_fuel it) it))
+        | None -> KErr e_INVALID)
+  else if Z.eqb b.bt jbinn_BINN_LIST
+       then (match iter_init b.bptr jbinn_BINN_LIST with
+             | Some it -> KSome (number Z0 (list_items (iter_fuel it) it))
+             | None -> KErr e_INVALID)
+       else if Z.eqb b.bt jbinn_BINN_MAP then KErr e_DECODE else KNot
 
-let write_hdr crc off len =
-  app (hdr wOP_WRITE)
-    (app (le_enc (S (S (S (S O)))) crc)
-      (app (le_enc (S (S (S (S O)))) len)
-        (le_enc (S (S (S (S (S (S (S (S O)))))))) off)))
+(** val at_bval2 : bval -> z list list -> bval at_res **)
 
-(** val step : pcfg -> pstate -> event -> pstate * effect list **)
+let at_bval2 b ptr = match ptr with
+| [] -> AtFound b
+| _ :: _ ->
+  (match kids_b b with
+   | KNot -> AtErr e_INVALID
+   | KErr e -> AtErr e
+   | KSome cs ->
+     (match visit kids_b upd_jbl false ptr (at_fuel ptr) Z0 cs { v_pos =
+              (Zneg XH); v_res = None; v_term = false } with
+      | VErr e -> AtErr e
+      | VOk st ->
+        (match st.v_res with
+         | Some r -> AtFound r
+         | None -> AtNotFound)))
 
-let step c s = function
-| VWrite (off, data) ->
-  write_wl c s
-    (write_hdr (if c.c_ccrc then crc32 data Z0 else Z0) off (lenZ data)) data
-| VSet (off, val0, len) -> write_wl c s (enc_rec (RSet (val0, off, len))) []
-| VCopy (off, len, noff) -> write_wl c s (enc_rec (RCopy (off, len, noff))) []
-| VResize (osize, nsize) ->
-  let (s1, e1) = write_wl c s (enc_rec (RResize (osize, nsize))) [] in
-  let (s2, e2) = checkpoint c s1 true Z0 in (s2, (app e1 e2))
-| VSynced -> flush_wl c s true
-| VSavepoint (ts, sync) -> savepoint c s ts sync
-| VCheckpoint ts -> checkpoint c s false ts
+(** val at_binn2 : z list -> z list list -> jval at_res **)
 
-(** val run : pcfg -> pstate -> event list -> pstate * effect list **)
+let at_binn2 bs ptr =
+  match root_bval bs with
+  | Some b ->
+    (match at_bval2 b ptr with
+     | AtFound r ->
+       (match dec_node (S (length bs)) r with
+        | Some v -> AtFound v
+        | None -> AtErr e_DECODE)
+     | AtNotFound -> AtNotFound
+     | AtPtrErr -> AtPtrErr
+     | AtPtrUndef -> AtPtrUndef
+     | AtErr e -> AtErr e)
+  | None -> AtErr e_INVALID
 
-let rec run c s = function
-| [] -> (s, [])
-| ev :: t ->
-  let (s1, e1) = step c s ev in let (s2, e2) = run c s1 t in (s2, (app e1 e2))
+(** val at_binn : z list -> z list -> jval at_res **)
 
-(** val apply_effect : (bytes * bytes) -> effect -> bytes * bytes **)
+let at_binn bs path =
+  match ptr_parse3 path with
+  | PErr -> AtPtrErr
+  | PUndef -> AtPtrUndef
+  | POk ptr -> at_binn2 bs ptr
 
-let apply_effect ld e =
-  let (log, disk) = ld in
-  (match e with
-   | ELogAppend bs -> ((app log bs), disk)
-   | ELogTruncate -> ([], disk)
-   | EMainStore op ->
-     (log, (match apply_op disk op with
-            | Some m -> m
-            | None -> disk))
-   | EMainResize n0 -> (log, (resize_nat (Z.to_nat n0) disk))
-   | _ -> (log, disk))
+type cframe = { f_key : z list option; f_obj : bool;
+                f_kids : (z list option * jval) list }
 
-(** val after_effects : bytes -> bytes -> effect list -> bytes * bytes **)
+type cst = { c_stack : cframe list; c_pend : (z list option * bool) option;
+             c_pos : z }
 
-let after_effects log disk es =
-  fold_left apply_effect es (log, disk)
+(** val frame_val : cframe -> jval **)
 
-(** val recovery_effects : bool -> bytes -> bytes -> effect list **)
+let frame_val f =
+  if f.f_obj
+  then JObj
+         (map (fun c -> ((match fst c with
+                          | Some k -> k
+                          | None -> []), (snd c))) (rev f.f_kids))
+  else JArr (map snd (rev f.f_kids))
 
-let recovery_effects ccrc log disk =
-  if Z.eqb (lenZ log) Z0
-  then []
-  else let (v, ops) = replay_ops ccrc (Zpos XH) Z0 log in
-       app (replay_effects (lenZ disk) ops)
-         (match v with
-          | VOk -> EMsync :: (ELogTruncate :: (ELogFsync :: []))
-          | _ -> [])
+(** val add_kid : (z list option * jval) -> cframe list -> cframe list **)
 
-(** val effect_sig : effect -> ((z * z) * z) * z **)
+let add_kid c = function
+| [] -> []
+| f :: r ->
+  { f_key = f.f_key; f_obj = f.f_obj; f_kids = (c :: f.f_kids) } :: r
 
-let effect_sig = function
-| ELogAppend bs -> ((((Zpos XH), (Zpos XH)), (Zneg XH)), (lenZ bs))
-| ELogFsync -> ((((Zpos (XI (XO XH))), (Zpos XH)), Z0), Z0)
-| ELogTruncate -> ((((Zpos (XI XH)), (Zpos XH)), Z0), Z0)
-| EMainStore op ->
-  let (p, l) = aop_sig op in
-  let (k, o) = p in ((((Zpos (XO (XO (XO XH)))), k), o), l)
-| EMainResize n0 -> ((((Zpos (XO (XO XH))), (Zpos (XO XH))), n0), Z0)
-| EMsync -> ((((Zpos (XI (XI XH))), (Zpos (XO XH))), Z0), Z0)
+(** val flush : cst -> cst **)
+
+let flush s =
+  match s.c_pend with
+  | Some p ->
+    let (k, o) = p in
+    { c_stack = (add_kid (k, (if o then JObj [] else JArr [])) s.c_stack);
+    c_pend = None; c_pos = s.c_pos }
+  | None -> s
+
+(** val pop1 : cframe list -> cframe list **)
+
+let pop1 = function
+| [] -> []
+| f :: r -> add_kid (f.f_key, (frame_val f)) r
+
+(** val popn : nat -> cframe list -> cframe list **)
+
+let rec popn n0 st =
+  match n0 with
+  | O -> st
+  | S k -> popn k (pop1 st)
+
+(** val clone_visit : z -> z list option -> jval -> cst -> cst **)
+
+let clone_visit lvl key n0 s =
+  let s1 =
+    if Z.ltb lvl s.c_pos
+    then let s0 = flush s in
+         { c_stack = (popn (Z.to_nat (Z.sub s.c_pos lvl)) s0.c_stack);
+         c_pend = None; c_pos = lvl }
+    else if Z.gtb lvl s.c_pos
+         then (match s.c_pend with
+               | Some p ->
+                 let (k, o) = p in
+                 { c_stack = ({ f_key = k; f_obj = o; f_kids =
+                 [] } :: s.c_stack); c_pend = None; c_pos = lvl }
+               | None -> { c_stack = s.c_stack; c_pend = None; c_pos = lvl })
+         else flush s
+  in
+  (match n0 with
+   | JArr _ ->
+     { c_stack = s1.c_stack; c_pend = (Some (key, false)); c_pos = s1.c_pos }
+   | JObj _ ->
+     { c_stack = s1.c_stack; c_pend = (Some (key, true)); c_pos = s1.c_pos }
+   | _ ->
+     { c_stack = (add_kid (key, n0) s1.c_stack); c_pend = None; c_pos =
+       s1.c_pos })
+
+(** val clone_walk : z -> jval -> cst -> cst **)
+
+let rec clone_walk lvl v s =
+  match v with
+  | JArr items ->
+    let rec loop l s0 =
+      match l with
+      | [] -> s0
+      | x :: r ->
+        loop r
+          (clone_walk (Z.add lvl (Zpos XH)) x (clone_visit lvl None x s0))
+    in loop items s
+  | JObj ms ->
+    let rec loop l s0 =
+      match l with
+      | [] -> s0
+      | p :: r ->
+        let (k, x) = p in
+        loop r
+          (clone_walk (Z.add lvl (Zpos XH)) x (clone_visit lvl (Some k) x s0))
+    in loop ms s
+  | _ -> s
+
+(** val jbn_clone : jval -> jval **)
+
+let jbn_clone v = match v with
+| JArr _ ->
+  let s =
+    flush
+      (clone_walk Z0 v { c_stack = ({ f_key = None; f_obj =
+        (match v with
+         | JObj _ -> true
+         | _ -> false); f_kids = [] } :: []); c_pend = None; c_pos = Z0 })
+  in
+  (match popn (Z.to_nat s.c_pos) s.c_stack with
+   | [] -> JNull
+   | f :: _ -> frame_val f)
+| JObj _ ->
+  let s =
+    flush
+      (clone_walk Z0 v { c_stack = ({ f_key = None; f_obj =
+        (match v with
+         | JObj _ -> true
+         | _ -> false); f_kids = [] } :: []); c_pend = None; c_pos = Z0 })
+  in
+  (match popn (Z.to_nat s.c_pos) s.c_stack with
+   | [] -> JNull
+   | f :: _ -> frame_val f)
+| _ -> v
